@@ -257,1757 +257,1142 @@ def C10.Quat.setAxisAngle {α : Type} [Add α] [Mul α] [Div α] [Neg α] [LT α
   else
     ⟨t542, ⟨((axis.x / t544) * t543), ((axis.y / t544) * t543), ((axis.z / t544) * t543)⟩⟩
 
-/-- extracted from the C++ template at T = Sym; 115 path(s) -/
-def C10.Quat.setRotation {α : Type} [Add α] [Sub α] [Mul α] [Div α] [Neg α] [LT α] [LE α] [DecidableLT α] [DecidableLE α] [DecidableEq α] [OfNat α 0] [OfNat α 1] [OfNat α 2] [OfNat α 8] (tmin : α) (tmax : α) (teps : α) (sqrt : α → α) (q : Quat α) (vfrom : V3 α) (vto : V3 α) : (Quat α) :=
-  let t558 := (V3.length tmin tmax sqrt ⟨vfrom.x, vfrom.y, vfrom.z⟩)
-  let t559 := (V3.length tmin tmax sqrt ⟨vto.x, vto.y, vto.z⟩)
-  let t560 := ((0 : α) * (0 : α))
-  let t562 := ((t560 + t560) + t560)
-  let t563 := ((0 : α) + (0 : α))
-  let t564 := (V3.length tmin tmax sqrt ⟨t563, t563, t563⟩)
-  let t565 := (t560 - t560)
-  let t566 := (t563 / t564)
-  let t567 := ((0 : α) * t566)
-  let t569 := ((t567 + t567) + t567)
-  let t570 := (t567 - t567)
-  let t573 := ((8 : α) * teps)
-  let t574 := (t573 * t573)
-  let t575 := (t563 * t563)
-  let t577 := ((t575 + t575) + t575)
-  let t578 := (t565 * t565)
-  let t582 := ((t562 * t562) - ((t578 + t578) + t578))
-  let t587 := (((t562 * t565) + (t565 * t562)) + (t578 - t578))
-  let t588 := (t566 * t566)
-  let t590 := ((t588 + t588) + t588)
-  let t591 := ((0 : α) * (1 : α))
-  let t592 := (t560 - t591)
-  let t593 := (t591 - t560)
-  let t594 := (V3.length tmin tmax sqrt ⟨t565, t593, t592⟩)
-  let t595 := (t592 / t594)
-  let t596 := (t593 / t594)
-  let t597 := (t565 / t594)
-  let t598 := ((0 : α) + t566)
-  let t599 := (V3.length tmin tmax sqrt ⟨t598, t598, t598⟩)
-  let t600 := (t566 + (0 : α))
-  let t601 := (V3.length tmin tmax sqrt ⟨t600, t600, t600⟩)
-  let t602 := (t566 * (0 : α))
-  let t604 := ((t602 + t602) + t602)
-  let t605 := (t602 - t602)
-  let t606 := (t565 * t605)
-  let t615 := (((t562 * t605) + (t565 * t604)) + (t606 - t606))
-  let t617 := (t566 * (t600 / t601))
-  let t619 := ((t617 + t617) + t617)
-  let t620 := (t617 - t617)
-  let t621 := (t565 * t620)
-  let t630 := (((t562 * t620) + (t565 * t619)) + (t621 - t621))
-  let t632 := ((0 : α) * (t598 / t599))
-  let t634 := ((t632 + t632) + t632)
-  let t635 := (t632 - t632)
-  let t636 := (t635 * t605)
-  let t645 := (((t634 * t605) + (t635 * t604)) + (t636 - t636))
-  let t646 := (t635 * t620)
-  let t655 := (((t634 * t620) + (t635 * t619)) + (t646 - t646))
-  let t656 := (t570 * t570)
-  let t665 := (((t569 * t570) + (t570 * t569)) + (t656 - t656))
-  let t666 := (vto.z / t559)
-  let t667 := (vto.y / t559)
-  let t668 := (vto.x / t559)
-  let t673 := ((((0 : α) * t668) + ((0 : α) * t667)) + ((0 : α) * t666))
-  let t674 := ((0 : α) + t666)
-  let t675 := ((0 : α) + t667)
-  let t676 := ((0 : α) + t668)
-  let t677 := (V3.length tmin tmax sqrt ⟨t676, t675, t674⟩)
-  let t678 := (t674 / t677)
-  let t679 := (t675 / t677)
-  let t680 := (t676 / t677)
-  let t681 := ((0 : α) * t678)
-  let t682 := ((0 : α) * t679)
-  let t683 := ((0 : α) * t680)
-  let t685 := ((t683 + t682) + t681)
-  let t686 := (t682 - t683)
-  let t687 := (t683 - t681)
-  let t688 := (t681 - t682)
-  let t693 := (((t676 * t676) + (t675 * t675)) + (t674 * t674))
-  let t694 := (t570 * t565)
-  let t698 := ((t569 * t562) - ((t694 + t694) + t694))
-  let t703 := (((t569 * t565) + (t570 * t562)) + (t694 - t694))
-  let t708 := (((t680 * t680) + (t679 * t679)) + (t678 * t678))
-  let t709 := ((0 : α) + t678)
-  let t710 := ((0 : α) + t679)
-  let t711 := ((0 : α) + t680)
-  let t712 := (V3.length tmin tmax sqrt ⟨t711, t710, t709⟩)
-  let t713 := (t678 + t666)
-  let t714 := (t679 + t667)
-  let t715 := (t680 + t668)
-  let t716 := (V3.length tmin tmax sqrt ⟨t715, t714, t713⟩)
-  let t717 := (t678 * (0 : α))
-  let t718 := (t679 * (0 : α))
-  let t719 := (t680 * (0 : α))
-  let t721 := ((t719 + t718) + t717)
-  let t722 := (t719 - t718)
-  let t723 := (t717 - t719)
-  let t724 := (t718 - t717)
-  let t725 := (t565 * t722)
-  let t726 := (t565 * t723)
-  let t727 := (t565 * t724)
-  let t735 := (t565 * t721)
-  let t745 := (t713 / t716)
-  let t746 := (t714 / t716)
-  let t747 := (t715 / t716)
-  let t752 := (((t680 * t747) + (t679 * t746)) + (t678 * t745))
-  let t755 := ((t680 * t746) - (t679 * t747))
-  let t758 := ((t678 * t747) - (t680 * t745))
-  let t761 := ((t679 * t745) - (t678 * t746))
-  let t762 := (t565 * t755)
-  let t763 := (t565 * t758)
-  let t764 := (t565 * t761)
-  let t772 := (t565 * t752)
-  let t785 := ((0 : α) * (t709 / t712))
-  let t786 := ((0 : α) * (t710 / t712))
-  let t787 := ((0 : α) * (t711 / t712))
-  let t789 := ((t787 + t786) + t785)
-  let t790 := (t786 - t787)
-  let t791 := (t787 - t785)
-  let t792 := (t785 - t786)
-  let t849 := (t565 * t686)
-  let t850 := (t565 * t687)
-  let t851 := (t565 * t688)
-  let t859 := (t565 * t685)
-  let t869 := (t570 * t686)
-  let t870 := (t570 * t687)
-  let t871 := (t570 * t688)
-  let t879 := (t570 * t685)
-  let t889 := (vfrom.z / t558)
-  let t890 := (vfrom.y / t558)
-  let t891 := (vfrom.x / t558)
-  let t892 := (t889 * (0 : α))
-  let t893 := (t890 * (0 : α))
-  let t894 := (t891 * (0 : α))
-  let t896 := ((t894 + t893) + t892)
-  let t897 := (t889 + (0 : α))
-  let t898 := (t890 + (0 : α))
-  let t899 := (t891 + (0 : α))
-  let t900 := (V3.length tmin tmax sqrt ⟨t899, t898, t897⟩)
-  let t901 := (t894 - t893)
-  let t902 := (t892 - t894)
-  let t903 := (t893 - t892)
-  let t904 := (t897 / t900)
-  let t905 := (t898 / t900)
-  let t906 := (t899 / t900)
-  let t911 := (((t891 * t906) + (t890 * t905)) + (t889 * t904))
-  let t914 := ((t891 * t905) - (t890 * t906))
-  let t917 := ((t889 * t906) - (t891 * t904))
-  let t920 := ((t890 * t904) - (t889 * t905))
-  let t925 := (((t899 * t899) + (t898 * t898)) + (t897 * t897))
-  let t926 := (t889 * t889)
-  let t927 := (t890 * t890)
-  let t928 := (t891 * t891)
-  let t929 := (t890 * (1 : α))
-  let t930 := (t894 - t929)
-  let t931 := (t889 * (1 : α))
-  let t932 := (t931 - t894)
-  let t933 := (V3.length tmin tmax sqrt ⟨t903, t932, t930⟩)
-  let t934 := (t930 / t933)
-  let t935 := (t932 / t933)
-  let t936 := (t903 / t933)
-  let t937 := (t891 * (1 : α))
-  let t938 := (t937 - t893)
-  let t939 := (t893 - t931)
-  let t940 := (V3.length tmin tmax sqrt ⟨t939, t902, t938⟩)
-  let t941 := (t938 / t940)
-  let t942 := (t902 / t940)
-  let t943 := (t939 / t940)
-  let t944 := (t892 - t937)
-  let t945 := (t929 - t892)
-  let t946 := (V3.length tmin tmax sqrt ⟨t945, t944, t901⟩)
-  let t947 := (t901 / t946)
-  let t948 := (t944 / t946)
-  let t949 := (t945 / t946)
-  let t950 := (t901 * t565)
-  let t951 := (t902 * t565)
-  let t952 := (t903 * t565)
-  let t956 := ((t896 * t562) - ((t952 + t951) + t950))
-  let t963 := (t896 * t565)
-  let t967 := ((t963 + (t901 * t562)) + (t952 - t951))
-  let t968 := ((t963 + (t902 * t562)) + (t950 - t952))
-  let t969 := ((t963 + (t903 * t562)) + (t951 - t950))
-  let t970 := (t901 * t570)
-  let t971 := (t902 * t570)
-  let t972 := (t903 * t570)
-  let t976 := ((t896 * t569) - ((t972 + t971) + t970))
-  let t983 := (t896 * t570)
-  let t987 := ((t983 + (t901 * t569)) + (t972 - t971))
-  let t988 := ((t983 + (t902 * t569)) + (t970 - t972))
-  let t989 := ((t983 + (t903 * t569)) + (t971 - t970))
-  let t994 := (((t906 * t906) + (t905 * t905)) + (t904 * t904))
-  let t995 := (t889 + t904)
-  let t996 := (t890 + t905)
-  let t997 := (t891 + t906)
-  let t998 := (V3.length tmin tmax sqrt ⟨t997, t996, t995⟩)
-  let t999 := (t904 + (0 : α))
-  let t1000 := (t905 + (0 : α))
-  let t1001 := (t906 + (0 : α))
-  let t1002 := (V3.length tmin tmax sqrt ⟨t1001, t1000, t999⟩)
-  let t1003 := (t904 * (0 : α))
-  let t1004 := (t905 * (0 : α))
-  let t1005 := (t906 * (0 : α))
-  let t1007 := ((t1005 + t1004) + t1003)
-  let t1008 := (t1005 - t1004)
-  let t1009 := (t1003 - t1005)
-  let t1010 := (t1004 - t1003)
-  let t1039 := (t999 / t1002)
-  let t1040 := (t1000 / t1002)
-  let t1041 := (t1001 / t1002)
-  let t1046 := (((t906 * t1041) + (t905 * t1040)) + (t904 * t1039))
-  let t1049 := ((t906 * t1040) - (t905 * t1041))
-  let t1052 := ((t904 * t1041) - (t906 * t1039))
-  let t1055 := ((t905 * t1039) - (t904 * t1040))
-  let t1084 := (t995 / t998)
-  let t1085 := (t996 / t998)
-  let t1086 := (t997 / t998)
-  let t1091 := (((t891 * t1086) + (t890 * t1085)) + (t889 * t1084))
-  let t1094 := ((t891 * t1085) - (t890 * t1086))
-  let t1097 := ((t889 * t1086) - (t891 * t1084))
-  let t1100 := ((t890 * t1084) - (t889 * t1085))
-  let t1157 := (t914 * t565)
-  let t1158 := (t917 * t565)
-  let t1159 := (t920 * t565)
-  let t1163 := ((t911 * t562) - ((t1159 + t1158) + t1157))
-  let t1170 := (t911 * t565)
-  let t1174 := ((t1170 + (t914 * t562)) + (t1159 - t1158))
-  let t1175 := ((t1170 + (t917 * t562)) + (t1157 - t1159))
-  let t1176 := ((t1170 + (t920 * t562)) + (t1158 - t1157))
-  let t1177 := (t914 * t570)
-  let t1178 := (t917 * t570)
-  let t1179 := (t920 * t570)
-  let t1190 := (t911 * t570)
-  let t1201 := (((t891 * t668) + (t890 * t667)) + (t889 * t666))
-  let t1202 := (t889 + t666)
-  let t1203 := (t890 + t667)
-  let t1204 := (t891 + t668)
-  let t1205 := (V3.length tmin tmax sqrt ⟨t1204, t1203, t1202⟩)
-  let t1206 := (t1202 / t1205)
-  let t1207 := (t1203 / t1205)
-  let t1208 := (t1204 / t1205)
-  let t1227 := (((t1204 * t1204) + (t1203 * t1203)) + (t1202 * t1202))
-  let t1234 := ((t896 * t685) - (((t903 * t688) + (t902 * t687)) + (t901 * t686)))
-  let t1253 := (((t896 * t686) + (t901 * t685)) + ((t903 * t687) - (t902 * t688)))
-  let t1254 := (((t896 * t687) + (t902 * t685)) + ((t901 * t688) - (t903 * t686)))
-  let t1255 := (((t896 * t688) + (t903 * t685)) + ((t902 * t686) - (t901 * t687)))
-  let t1262 := ((t911 * t685) - (((t920 * t688) + (t917 * t687)) + (t914 * t686)))
-  let t1281 := (((t911 * t686) + (t914 * t685)) + ((t920 * t687) - (t917 * t688)))
-  let t1282 := (((t911 * t687) + (t917 * t685)) + ((t914 * t688) - (t920 * t686)))
-  let t1283 := (((t911 * t688) + (t920 * t685)) + ((t917 * t686) - (t914 * t687)))
-  let t1288 := (((t1208 * t1208) + (t1207 * t1207)) + (t1206 * t1206))
-  let t1289 := (t889 + t1206)
-  let t1290 := (t890 + t1207)
-  let t1291 := (t891 + t1208)
-  let t1292 := (V3.length tmin tmax sqrt ⟨t1291, t1290, t1289⟩)
-  let t1293 := (t1206 + t666)
-  let t1294 := (t1207 + t667)
-  let t1295 := (t1208 + t668)
-  let t1296 := (V3.length tmin tmax sqrt ⟨t1295, t1294, t1293⟩)
-  let t1297 := (t1206 * (0 : α))
-  let t1298 := (t1207 * (0 : α))
-  let t1299 := (t1208 * (0 : α))
-  let t1301 := ((t1299 + t1298) + t1297)
-  let t1302 := (t1299 - t1298)
-  let t1303 := (t1297 - t1299)
-  let t1304 := (t1298 - t1297)
-  let t1333 := (t1293 / t1296)
-  let t1334 := (t1294 / t1296)
-  let t1335 := (t1295 / t1296)
-  let t1340 := (((t1208 * t1335) + (t1207 * t1334)) + (t1206 * t1333))
-  let t1343 := ((t1208 * t1334) - (t1207 * t1335))
-  let t1346 := ((t1206 * t1335) - (t1208 * t1333))
-  let t1349 := ((t1207 * t1333) - (t1206 * t1334))
-  let t1378 := (t1289 / t1292)
-  let t1379 := (t1290 / t1292)
-  let t1380 := (t1291 / t1292)
-  let t1385 := (((t891 * t1380) + (t890 * t1379)) + (t889 * t1378))
-  let t1388 := ((t891 * t1379) - (t890 * t1380))
-  let t1391 := ((t889 * t1380) - (t891 * t1378))
-  let t1394 := ((t890 * t1378) - (t889 * t1379))
-  if t558 = (0 : α) then
-    if t559 = (0 : α) then
-      if (0 : α) ≤ t562 then
-        if t564 = (0 : α) then
-          ⟨t562, ⟨t565, t565, t565⟩⟩
-        else
-          ⟨t569, ⟨t570, t570, t570⟩⟩
-      else
-        if t574 < t577 then
-          if t564 = (0 : α) then
-            ⟨t582, ⟨t587, t587, t587⟩⟩
-          else
-            if t590 = (0 : α) then
-              if t594 = (0 : α) then
-                ⟨(0 : α), ⟨(0 : α), (0 : α), (0 : α)⟩⟩
-              else
-                ⟨(0 : α), ⟨t597, t596, t595⟩⟩
-            else
-              if t599 = (0 : α) then
-                if t601 = (0 : α) then
-                  ⟨((t562 * t604) - ((t606 + t606) + t606)), ⟨t615, t615, t615⟩⟩
-                else
-                  ⟨((t562 * t619) - ((t621 + t621) + t621)), ⟨t630, t630, t630⟩⟩
-              else
-                if t601 = (0 : α) then
-                  ⟨((t634 * t604) - ((t636 + t636) + t636)), ⟨t645, t645, t645⟩⟩
-                else
-                  ⟨((t634 * t619) - ((t646 + t646) + t646)), ⟨t655, t655, t655⟩⟩
-        else
-          if t564 = (0 : α) then
-            ⟨t582, ⟨t587, t587, t587⟩⟩
-          else
-            ⟨((t569 * t569) - ((t656 + t656) + t656)), ⟨t665, t665, t665⟩⟩
-    else
-      if (0 : α) ≤ t673 then
-        if t677 = (0 : α) then
-          ⟨t562, ⟨t565, t565, t565⟩⟩
-        else
-          ⟨t685, ⟨t688, t687, t686⟩⟩
-      else
-        if t574 < t693 then
-          if t677 = (0 : α) then
-            if t562 = (0 : α) then
-              if t594 = (0 : α) then
-                ⟨(0 : α), ⟨(0 : α), (0 : α), (0 : α)⟩⟩
-              else
-                ⟨(0 : α), ⟨t597, t596, t595⟩⟩
-            else
-              if t564 = (0 : α) then
-                ⟨t582, ⟨t587, t587, t587⟩⟩
-              else
-                ⟨t698, ⟨t703, t703, t703⟩⟩
-          else
-            if t708 = (0 : α) then
-              if t594 = (0 : α) then
-                ⟨(0 : α), ⟨(0 : α), (0 : α), (0 : α)⟩⟩
-              else
-                ⟨(0 : α), ⟨t597, t596, t595⟩⟩
-            else
-              if t712 = (0 : α) then
-                if t716 = (0 : α) then
-                  ⟨((t562 * t721) - ((t727 + t726) + t725)), ⟨(((t562 * t724) + t735) + (t725 - t726)), (((t562 * t723) + t735) + (t727 - t725)), (((t562 * t722) + t735) + (t726 - t727))⟩⟩
-                else
-                  ⟨((t562 * t752) - ((t764 + t763) + t762)), ⟨(((t562 * t761) + t772) + (t762 - t763)), (((t562 * t758) + t772) + (t764 - t762)), (((t562 * t755) + t772) + (t763 - t764))⟩⟩
-              else
-                if t716 = (0 : α) then
-                  ⟨((t789 * t721) - (((t792 * t724) + (t791 * t723)) + (t790 * t722))), ⟨(((t789 * t724) + (t792 * t721)) + ((t791 * t722) - (t790 * t723))), (((t789 * t723) + (t791 * t721)) + ((t790 * t724) - (t792 * t722))), (((t789 * t722) + (t790 * t721)) + ((t792 * t723) - (t791 * t724)))⟩⟩
-                else
-                  ⟨((t789 * t752) - (((t792 * t761) + (t791 * t758)) + (t790 * t755))), ⟨(((t789 * t761) + (t792 * t752)) + ((t791 * t755) - (t790 * t758))), (((t789 * t758) + (t791 * t752)) + ((t790 * t761) - (t792 * t755))), (((t789 * t755) + (t790 * t752)) + ((t792 * t758) - (t791 * t761)))⟩⟩
-        else
-          if t562 = (0 : α) then
-            if t594 = (0 : α) then
-              ⟨(0 : α), ⟨(0 : α), (0 : α), (0 : α)⟩⟩
-            else
-              ⟨(0 : α), ⟨t597, t596, t595⟩⟩
-          else
-            if t564 = (0 : α) then
-              if t677 = (0 : α) then
-                ⟨t582, ⟨t587, t587, t587⟩⟩
-              else
-                ⟨((t562 * t685) - ((t851 + t850) + t849)), ⟨(((t562 * t688) + t859) + (t849 - t850)), (((t562 * t687) + t859) + (t851 - t849)), (((t562 * t686) + t859) + (t850 - t851))⟩⟩
-            else
-              if t677 = (0 : α) then
-                ⟨t698, ⟨t703, t703, t703⟩⟩
-              else
-                ⟨((t569 * t685) - ((t871 + t870) + t869)), ⟨(((t569 * t688) + t879) + (t869 - t870)), (((t569 * t687) + t879) + (t871 - t869)), (((t569 * t686) + t879) + (t870 - t871))⟩⟩
-  else
-    if t559 = (0 : α) then
-      if (0 : α) ≤ t896 then
-        if t900 = (0 : α) then
-          ⟨t896, ⟨t903, t902, t901⟩⟩
-        else
-          ⟨t911, ⟨t920, t917, t914⟩⟩
-      else
-        if t574 < t925 then
-          if t900 = (0 : α) then
-            if t562 = (0 : α) then
-              if t928 ≤ t927 then
-                if t928 ≤ t926 then
-                  if t933 = (0 : α) then
-                    ⟨(0 : α), ⟨(0 : α), (0 : α), (0 : α)⟩⟩
-                  else
-                    ⟨(0 : α), ⟨t936, t935, t934⟩⟩
-                else
-                  if t927 ≤ t926 then
-                    if t940 = (0 : α) then
-                      ⟨(0 : α), ⟨(0 : α), (0 : α), (0 : α)⟩⟩
-                    else
-                      ⟨(0 : α), ⟨t943, t942, t941⟩⟩
-                  else
-                    if t946 = (0 : α) then
-                      ⟨(0 : α), ⟨(0 : α), (0 : α), (0 : α)⟩⟩
-                    else
-                      ⟨(0 : α), ⟨t949, t948, t947⟩⟩
-              else
-                if t927 ≤ t926 then
-                  if t940 = (0 : α) then
-                    ⟨(0 : α), ⟨(0 : α), (0 : α), (0 : α)⟩⟩
-                  else
-                    ⟨(0 : α), ⟨t943, t942, t941⟩⟩
-                else
-                  if t946 = (0 : α) then
-                    ⟨(0 : α), ⟨(0 : α), (0 : α), (0 : α)⟩⟩
-                  else
-                    ⟨(0 : α), ⟨t949, t948, t947⟩⟩
-            else
-              if t564 = (0 : α) then
-                ⟨t956, ⟨t969, t968, t967⟩⟩
-              else
-                ⟨t976, ⟨t989, t988, t987⟩⟩
-          else
-            if t994 = (0 : α) then
-              if t928 ≤ t927 then
-                if t928 ≤ t926 then
-                  if t933 = (0 : α) then
-                    ⟨(0 : α), ⟨(0 : α), (0 : α), (0 : α)⟩⟩
-                  else
-                    ⟨(0 : α), ⟨t936, t935, t934⟩⟩
-                else
-                  if t927 ≤ t926 then
-                    if t940 = (0 : α) then
-                      ⟨(0 : α), ⟨(0 : α), (0 : α), (0 : α)⟩⟩
-                    else
-                      ⟨(0 : α), ⟨t943, t942, t941⟩⟩
-                  else
-                    if t946 = (0 : α) then
-                      ⟨(0 : α), ⟨(0 : α), (0 : α), (0 : α)⟩⟩
-                    else
-                      ⟨(0 : α), ⟨t949, t948, t947⟩⟩
-              else
-                if t927 ≤ t926 then
-                  if t940 = (0 : α) then
-                    ⟨(0 : α), ⟨(0 : α), (0 : α), (0 : α)⟩⟩
-                  else
-                    ⟨(0 : α), ⟨t943, t942, t941⟩⟩
-                else
-                  if t946 = (0 : α) then
-                    ⟨(0 : α), ⟨(0 : α), (0 : α), (0 : α)⟩⟩
-                  else
-                    ⟨(0 : α), ⟨t949, t948, t947⟩⟩
-            else
-              if t998 = (0 : α) then
-                if t1002 = (0 : α) then
-                  ⟨((t896 * t1007) - (((t903 * t1010) + (t902 * t1009)) + (t901 * t1008))), ⟨(((t896 * t1010) + (t903 * t1007)) + ((t902 * t1008) - (t901 * t1009))), (((t896 * t1009) + (t902 * t1007)) + ((t901 * t1010) - (t903 * t1008))), (((t896 * t1008) + (t901 * t1007)) + ((t903 * t1009) - (t902 * t1010)))⟩⟩
-                else
-                  ⟨((t896 * t1046) - (((t903 * t1055) + (t902 * t1052)) + (t901 * t1049))), ⟨(((t896 * t1055) + (t903 * t1046)) + ((t902 * t1049) - (t901 * t1052))), (((t896 * t1052) + (t902 * t1046)) + ((t901 * t1055) - (t903 * t1049))), (((t896 * t1049) + (t901 * t1046)) + ((t903 * t1052) - (t902 * t1055)))⟩⟩
-              else
-                if t1002 = (0 : α) then
-                  ⟨((t1091 * t1007) - (((t1100 * t1010) + (t1097 * t1009)) + (t1094 * t1008))), ⟨(((t1091 * t1010) + (t1100 * t1007)) + ((t1097 * t1008) - (t1094 * t1009))), (((t1091 * t1009) + (t1097 * t1007)) + ((t1094 * t1010) - (t1100 * t1008))), (((t1091 * t1008) + (t1094 * t1007)) + ((t1100 * t1009) - (t1097 * t1010)))⟩⟩
-                else
-                  ⟨((t1091 * t1046) - (((t1100 * t1055) + (t1097 * t1052)) + (t1094 * t1049))), ⟨(((t1091 * t1055) + (t1100 * t1046)) + ((t1097 * t1049) - (t1094 * t1052))), (((t1091 * t1052) + (t1097 * t1046)) + ((t1094 * t1055) - (t1100 * t1049))), (((t1091 * t1049) + (t1094 * t1046)) + ((t1100 * t1052) - (t1097 * t1055)))⟩⟩
-        else
-          if t562 = (0 : α) then
-            if t928 ≤ t927 then
-              if t928 ≤ t926 then
-                if t933 = (0 : α) then
-                  ⟨(0 : α), ⟨(0 : α), (0 : α), (0 : α)⟩⟩
-                else
-                  ⟨(0 : α), ⟨t936, t935, t934⟩⟩
-              else
-                if t927 ≤ t926 then
-                  if t940 = (0 : α) then
-                    ⟨(0 : α), ⟨(0 : α), (0 : α), (0 : α)⟩⟩
-                  else
-                    ⟨(0 : α), ⟨t943, t942, t941⟩⟩
-                else
-                  if t946 = (0 : α) then
-                    ⟨(0 : α), ⟨(0 : α), (0 : α), (0 : α)⟩⟩
-                  else
-                    ⟨(0 : α), ⟨t949, t948, t947⟩⟩
-            else
-              if t927 ≤ t926 then
-                if t940 = (0 : α) then
-                  ⟨(0 : α), ⟨(0 : α), (0 : α), (0 : α)⟩⟩
-                else
-                  ⟨(0 : α), ⟨t943, t942, t941⟩⟩
-              else
-                if t946 = (0 : α) then
-                  ⟨(0 : α), ⟨(0 : α), (0 : α), (0 : α)⟩⟩
-                else
-                  ⟨(0 : α), ⟨t949, t948, t947⟩⟩
-          else
-            if t900 = (0 : α) then
-              if t564 = (0 : α) then
-                ⟨t956, ⟨t969, t968, t967⟩⟩
-              else
-                ⟨t976, ⟨t989, t988, t987⟩⟩
-            else
-              if t564 = (0 : α) then
-                ⟨t1163, ⟨t1176, t1175, t1174⟩⟩
-              else
-                ⟨((t911 * t569) - ((t1179 + t1178) + t1177)), ⟨((t1190 + (t920 * t569)) + (t1178 - t1177)), ((t1190 + (t917 * t569)) + (t1177 - t1179)), ((t1190 + (t914 * t569)) + (t1179 - t1178))⟩⟩
-    else
-      if (0 : α) ≤ t1201 then
-        if t1205 = (0 : α) then
-          ⟨t896, ⟨t903, t902, t901⟩⟩
-        else
-          ⟨(((t891 * t1208) + (t890 * t1207)) + (t889 * t1206)), ⟨((t890 * t1206) - (t889 * t1207)), ((t889 * t1208) - (t891 * t1206)), ((t891 * t1207) - (t890 * t1208))⟩⟩
-      else
-        if t574 < t1227 then
-          if t1205 = (0 : α) then
-            if t562 = (0 : α) then
-              if t928 ≤ t927 then
-                if t928 ≤ t926 then
-                  if t933 = (0 : α) then
-                    ⟨(0 : α), ⟨(0 : α), (0 : α), (0 : α)⟩⟩
-                  else
-                    ⟨(0 : α), ⟨t936, t935, t934⟩⟩
-                else
-                  if t927 ≤ t926 then
-                    if t940 = (0 : α) then
-                      ⟨(0 : α), ⟨(0 : α), (0 : α), (0 : α)⟩⟩
-                    else
-                      ⟨(0 : α), ⟨t943, t942, t941⟩⟩
-                  else
-                    if t946 = (0 : α) then
-                      ⟨(0 : α), ⟨(0 : α), (0 : α), (0 : α)⟩⟩
-                    else
-                      ⟨(0 : α), ⟨t949, t948, t947⟩⟩
-              else
-                if t927 ≤ t926 then
-                  if t940 = (0 : α) then
-                    ⟨(0 : α), ⟨(0 : α), (0 : α), (0 : α)⟩⟩
-                  else
-                    ⟨(0 : α), ⟨t943, t942, t941⟩⟩
-                else
-                  if t946 = (0 : α) then
-                    ⟨(0 : α), ⟨(0 : α), (0 : α), (0 : α)⟩⟩
-                  else
-                    ⟨(0 : α), ⟨t949, t948, t947⟩⟩
-            else
-              if t900 = (0 : α) then
-                if t677 = (0 : α) then
-                  ⟨t956, ⟨t969, t968, t967⟩⟩
-                else
-                  ⟨t1234, ⟨t1255, t1254, t1253⟩⟩
-              else
-                if t677 = (0 : α) then
-                  ⟨t1163, ⟨t1176, t1175, t1174⟩⟩
-                else
-                  ⟨t1262, ⟨t1283, t1282, t1281⟩⟩
-          else
-            if t1288 = (0 : α) then
-              if t928 ≤ t927 then
-                if t928 ≤ t926 then
-                  if t933 = (0 : α) then
-                    ⟨(0 : α), ⟨(0 : α), (0 : α), (0 : α)⟩⟩
-                  else
-                    ⟨(0 : α), ⟨t936, t935, t934⟩⟩
-                else
-                  if t927 ≤ t926 then
-                    if t940 = (0 : α) then
-                      ⟨(0 : α), ⟨(0 : α), (0 : α), (0 : α)⟩⟩
-                    else
-                      ⟨(0 : α), ⟨t943, t942, t941⟩⟩
-                  else
-                    if t946 = (0 : α) then
-                      ⟨(0 : α), ⟨(0 : α), (0 : α), (0 : α)⟩⟩
-                    else
-                      ⟨(0 : α), ⟨t949, t948, t947⟩⟩
-              else
-                if t927 ≤ t926 then
-                  if t940 = (0 : α) then
-                    ⟨(0 : α), ⟨(0 : α), (0 : α), (0 : α)⟩⟩
-                  else
-                    ⟨(0 : α), ⟨t943, t942, t941⟩⟩
-                else
-                  if t946 = (0 : α) then
-                    ⟨(0 : α), ⟨(0 : α), (0 : α), (0 : α)⟩⟩
-                  else
-                    ⟨(0 : α), ⟨t949, t948, t947⟩⟩
-            else
-              if t1292 = (0 : α) then
-                if t1296 = (0 : α) then
-                  ⟨((t896 * t1301) - (((t903 * t1304) + (t902 * t1303)) + (t901 * t1302))), ⟨(((t896 * t1304) + (t903 * t1301)) + ((t902 * t1302) - (t901 * t1303))), (((t896 * t1303) + (t902 * t1301)) + ((t901 * t1304) - (t903 * t1302))), (((t896 * t1302) + (t901 * t1301)) + ((t903 * t1303) - (t902 * t1304)))⟩⟩
-                else
-                  ⟨((t896 * t1340) - (((t903 * t1349) + (t902 * t1346)) + (t901 * t1343))), ⟨(((t896 * t1349) + (t903 * t1340)) + ((t902 * t1343) - (t901 * t1346))), (((t896 * t1346) + (t902 * t1340)) + ((t901 * t1349) - (t903 * t1343))), (((t896 * t1343) + (t901 * t1340)) + ((t903 * t1346) - (t902 * t1349)))⟩⟩
-              else
-                if t1296 = (0 : α) then
-                  ⟨((t1385 * t1301) - (((t1394 * t1304) + (t1391 * t1303)) + (t1388 * t1302))), ⟨(((t1385 * t1304) + (t1394 * t1301)) + ((t1391 * t1302) - (t1388 * t1303))), (((t1385 * t1303) + (t1391 * t1301)) + ((t1388 * t1304) - (t1394 * t1302))), (((t1385 * t1302) + (t1388 * t1301)) + ((t1394 * t1303) - (t1391 * t1304)))⟩⟩
-                else
-                  ⟨((t1385 * t1340) - (((t1394 * t1349) + (t1391 * t1346)) + (t1388 * t1343))), ⟨(((t1385 * t1349) + (t1394 * t1340)) + ((t1391 * t1343) - (t1388 * t1346))), (((t1385 * t1346) + (t1391 * t1340)) + ((t1388 * t1349) - (t1394 * t1343))), (((t1385 * t1343) + (t1388 * t1340)) + ((t1394 * t1346) - (t1391 * t1349)))⟩⟩
-        else
-          if t562 = (0 : α) then
-            if t928 ≤ t927 then
-              if t928 ≤ t926 then
-                if t933 = (0 : α) then
-                  ⟨(0 : α), ⟨(0 : α), (0 : α), (0 : α)⟩⟩
-                else
-                  ⟨(0 : α), ⟨t936, t935, t934⟩⟩
-              else
-                if t927 ≤ t926 then
-                  if t940 = (0 : α) then
-                    ⟨(0 : α), ⟨(0 : α), (0 : α), (0 : α)⟩⟩
-                  else
-                    ⟨(0 : α), ⟨t943, t942, t941⟩⟩
-                else
-                  if t946 = (0 : α) then
-                    ⟨(0 : α), ⟨(0 : α), (0 : α), (0 : α)⟩⟩
-                  else
-                    ⟨(0 : α), ⟨t949, t948, t947⟩⟩
-            else
-              if t927 ≤ t926 then
-                if t940 = (0 : α) then
-                  ⟨(0 : α), ⟨(0 : α), (0 : α), (0 : α)⟩⟩
-                else
-                  ⟨(0 : α), ⟨t943, t942, t941⟩⟩
-              else
-                if t946 = (0 : α) then
-                  ⟨(0 : α), ⟨(0 : α), (0 : α), (0 : α)⟩⟩
-                else
-                  ⟨(0 : α), ⟨t949, t948, t947⟩⟩
-          else
-            if t900 = (0 : α) then
-              if t677 = (0 : α) then
-                ⟨t956, ⟨t969, t968, t967⟩⟩
-              else
-                ⟨t1234, ⟨t1255, t1254, t1253⟩⟩
-            else
-              if t677 = (0 : α) then
-                ⟨t1163, ⟨t1176, t1175, t1174⟩⟩
-              else
-                ⟨t1262, ⟨t1283, t1282, t1281⟩⟩
-
 /-- extracted from the C++ template at T = Sym; 2 path(s) -/
 def C10.V3.normalized {α : Type} [Add α] [Mul α] [Div α] [Neg α] [LT α] [LE α] [DecidableLT α] [DecidableLE α] [DecidableEq α] [OfNat α 0] [OfNat α 2] (tmin : α) (tmax : α) (sqrt : α → α) (a : V3 α) : (V3 α) :=
-  let t1454 := (V3.length tmin tmax sqrt ⟨a.x, a.y, a.z⟩)
-  if t1454 = (0 : α) then
+  let t555 := (V3.length tmin tmax sqrt ⟨a.x, a.y, a.z⟩)
+  if t555 = (0 : α) then
     ⟨(0 : α), (0 : α), (0 : α)⟩
   else
-    ⟨(a.x / t1454), (a.y / t1454), (a.z / t1454)⟩
+    ⟨(a.x / t555), (a.y / t555), (a.z / t555)⟩
 
 /-- extracted from the C++ template at T = Sym; 2 path(s) -/
 def C10.Quat.setRotationInternal {α : Type} [Add α] [Sub α] [Mul α] [Div α] [Neg α] [LT α] [LE α] [DecidableLT α] [DecidableLE α] [DecidableEq α] [OfNat α 0] [OfNat α 2] (tmin : α) (tmax : α) (sqrt : α → α) (f0 : V3 α) (t0 : V3 α) : (Quat α) :=
-  let t1464 := (f0.z + t0.z)
-  let t1465 := (f0.y + t0.y)
-  let t1466 := (f0.x + t0.x)
-  let t1467 := (V3.length tmin tmax sqrt ⟨t1466, t1465, t1464⟩)
-  let t1468 := (f0.z * (0 : α))
-  let t1469 := (f0.y * (0 : α))
-  let t1470 := (f0.x * (0 : α))
-  let t1476 := (t1464 / t1467)
-  let t1477 := (t1465 / t1467)
-  let t1478 := (t1466 / t1467)
-  if t1467 = (0 : α) then
-    ⟨((t1470 + t1469) + t1468), ⟨(t1469 - t1468), (t1468 - t1470), (t1470 - t1469)⟩⟩
+  let t565 := (f0.z + t0.z)
+  let t566 := (f0.y + t0.y)
+  let t567 := (f0.x + t0.x)
+  let t568 := (V3.length tmin tmax sqrt ⟨t567, t566, t565⟩)
+  let t569 := (f0.z * (0 : α))
+  let t570 := (f0.y * (0 : α))
+  let t571 := (f0.x * (0 : α))
+  let t577 := (t565 / t568)
+  let t578 := (t566 / t568)
+  let t579 := (t567 / t568)
+  if t568 = (0 : α) then
+    ⟨((t571 + t570) + t569), ⟨(t570 - t569), (t569 - t571), (t571 - t570)⟩⟩
   else
-    ⟨(((f0.x * t1478) + (f0.y * t1477)) + (f0.z * t1476)), ⟨((f0.y * t1476) - (f0.z * t1477)), ((f0.z * t1478) - (f0.x * t1476)), ((f0.x * t1477) - (f0.y * t1478))⟩⟩
+    ⟨(((f0.x * t579) + (f0.y * t578)) + (f0.z * t577)), ⟨((f0.y * t577) - (f0.z * t578)), ((f0.z * t579) - (f0.x * t577)), ((f0.x * t578) - (f0.y * t579))⟩⟩
 
 /-- extracted from the C++ template at T = Sym; 2 path(s) -/
 def C10.sinx_over_x {α : Type} [Mul α] [Div α] [LT α] [DecidableLT α] [OfNat α 1] (teps : α) (sin : α → α) (x : α) : α :=
-  let t1494 := (x * x)
-  if t1494 < teps then
+  let t596 := (x * x)
+  if t596 < teps then
     (1 : α)
   else
     ((sin x) / x)
 
 /-- extracted from the C++ template at T = Sym; 1 path(s) -/
 def C10.Quat.angle4D {α : Type} [Add α] [Sub α] [Mul α] [OfNat α 2] (sqrt : α → α) (atan2 : α → α → α) (q1 : Quat α) (q2 : Quat α) : α :=
-  let t1505 := (q1.v.z - q2.v.z)
-  let t1506 := (q1.v.y - q2.v.y)
-  let t1507 := (q1.v.x - q2.v.x)
-  let t1508 := (q1.r - q2.r)
-  let t1517 := (q1.v.z + q2.v.z)
-  let t1518 := (q1.v.y + q2.v.y)
-  let t1519 := (q1.v.x + q2.v.x)
-  let t1520 := (q1.r + q2.r)
-  ((2 : α) * (atan2 (sqrt ((t1508 * t1508) + (((t1507 * t1507) + (t1506 * t1506)) + (t1505 * t1505)))) (sqrt ((t1520 * t1520) + (((t1519 * t1519) + (t1518 * t1518)) + (t1517 * t1517))))))
+  let t607 := (q1.v.z - q2.v.z)
+  let t608 := (q1.v.y - q2.v.y)
+  let t609 := (q1.v.x - q2.v.x)
+  let t610 := (q1.r - q2.r)
+  let t619 := (q1.v.z + q2.v.z)
+  let t620 := (q1.v.y + q2.v.y)
+  let t621 := (q1.v.x + q2.v.x)
+  let t622 := (q1.r + q2.r)
+  ((2 : α) * (atan2 (sqrt ((t610 * t610) + (((t609 * t609) + (t608 * t608)) + (t607 * t607)))) (sqrt ((t622 * t622) + (((t621 * t621) + (t620 * t620)) + (t619 * t619))))))
 
 /-- extracted from the C++ template at T = Sym; 16 path(s) -/
 def C10.Quat.slerp {α : Type} [Add α] [Sub α] [Mul α] [Div α] [LT α] [DecidableLT α] [DecidableEq α] [OfNat α 0] [OfNat α 1] [OfNat α 2] (teps : α) (sqrt : α → α) (sin : α → α) (atan2 : α → α → α) (q1 : Quat α) (q2 : Quat α) (t : α) : (Quat α) :=
-  let t1505 := (q1.v.z - q2.v.z)
-  let t1506 := (q1.v.y - q2.v.y)
-  let t1507 := (q1.v.x - q2.v.x)
-  let t1508 := (q1.r - q2.r)
-  let t1517 := (q1.v.z + q2.v.z)
-  let t1518 := (q1.v.y + q2.v.y)
-  let t1519 := (q1.v.x + q2.v.x)
-  let t1520 := (q1.r + q2.r)
-  let t1530 := ((2 : α) * (atan2 (sqrt ((t1508 * t1508) + (((t1507 * t1507) + (t1506 * t1506)) + (t1505 * t1505)))) (sqrt ((t1520 * t1520) + (((t1519 * t1519) + (t1518 * t1518)) + (t1517 * t1517))))))
-  let t1532 := ((1 : α) - t)
-  let t1533 := (t1530 * t1530)
-  let t1534 := (t * t1530)
-  let t1535 := (t1534 * t1534)
-  let t1536 := ((1 : α) / (1 : α))
-  let t1537 := (t1536 * t)
-  let t1538 := (q2.v.z * t1537)
-  let t1539 := (q2.v.y * t1537)
-  let t1540 := (q2.v.x * t1537)
-  let t1541 := (q2.r * t1537)
-  let t1542 := (t1532 * t1530)
-  let t1543 := (t1542 * t1542)
-  let t1544 := (t1536 * t1532)
-  let t1545 := (q1.v.z * t1544)
-  let t1546 := (q1.v.y * t1544)
-  let t1547 := (q1.v.x * t1544)
-  let t1548 := (q1.r * t1544)
-  let t1549 := (t1545 + t1538)
-  let t1550 := (t1546 + t1539)
-  let t1551 := (t1547 + t1540)
-  let t1552 := (t1548 + t1541)
-  let t1560 := (sqrt ((t1552 * t1552) + (((t1551 * t1551) + (t1550 * t1550)) + (t1549 * t1549))))
-  let t1566 := ((sin t1542) / t1542)
-  let t1568 := ((t1566 / (1 : α)) * t1532)
-  let t1569 := (q1.v.z * t1568)
-  let t1570 := (q1.v.y * t1568)
-  let t1571 := (q1.v.x * t1568)
-  let t1572 := (q1.r * t1568)
-  let t1573 := (t1569 + t1538)
-  let t1574 := (t1570 + t1539)
-  let t1575 := (t1571 + t1540)
-  let t1576 := (t1572 + t1541)
-  let t1584 := (sqrt ((t1576 * t1576) + (((t1575 * t1575) + (t1574 * t1574)) + (t1573 * t1573))))
-  let t1590 := ((sin t1534) / t1534)
-  let t1592 := ((t1590 / (1 : α)) * t)
-  let t1593 := (q2.v.z * t1592)
-  let t1594 := (q2.v.y * t1592)
-  let t1595 := (q2.v.x * t1592)
-  let t1596 := (q2.r * t1592)
-  let t1597 := (t1545 + t1593)
-  let t1598 := (t1546 + t1594)
-  let t1599 := (t1547 + t1595)
-  let t1600 := (t1548 + t1596)
-  let t1608 := (sqrt ((t1600 * t1600) + (((t1599 * t1599) + (t1598 * t1598)) + (t1597 * t1597))))
-  let t1613 := (t1569 + t1593)
-  let t1614 := (t1570 + t1594)
-  let t1615 := (t1571 + t1595)
-  let t1616 := (t1572 + t1596)
-  let t1624 := (sqrt ((t1616 * t1616) + (((t1615 * t1615) + (t1614 * t1614)) + (t1613 * t1613))))
-  let t1630 := ((sin t1530) / t1530)
-  let t1631 := ((1 : α) / t1630)
-  let t1632 := (t1631 * t)
-  let t1633 := (q2.v.z * t1632)
-  let t1634 := (q2.v.y * t1632)
-  let t1635 := (q2.v.x * t1632)
-  let t1636 := (q2.r * t1632)
-  let t1637 := (t1631 * t1532)
-  let t1638 := (q1.v.z * t1637)
-  let t1639 := (q1.v.y * t1637)
-  let t1640 := (q1.v.x * t1637)
-  let t1641 := (q1.r * t1637)
-  let t1642 := (t1638 + t1633)
-  let t1643 := (t1639 + t1634)
-  let t1644 := (t1640 + t1635)
-  let t1645 := (t1641 + t1636)
-  let t1653 := (sqrt ((t1645 * t1645) + (((t1644 * t1644) + (t1643 * t1643)) + (t1642 * t1642))))
-  let t1659 := ((t1566 / t1630) * t1532)
-  let t1660 := (q1.v.z * t1659)
-  let t1661 := (q1.v.y * t1659)
-  let t1662 := (q1.v.x * t1659)
-  let t1663 := (q1.r * t1659)
-  let t1664 := (t1660 + t1633)
-  let t1665 := (t1661 + t1634)
-  let t1666 := (t1662 + t1635)
-  let t1667 := (t1663 + t1636)
-  let t1675 := (sqrt ((t1667 * t1667) + (((t1666 * t1666) + (t1665 * t1665)) + (t1664 * t1664))))
-  let t1681 := ((t1590 / t1630) * t)
-  let t1682 := (q2.v.z * t1681)
-  let t1683 := (q2.v.y * t1681)
-  let t1684 := (q2.v.x * t1681)
-  let t1685 := (q2.r * t1681)
-  let t1686 := (t1638 + t1682)
-  let t1687 := (t1639 + t1683)
-  let t1688 := (t1640 + t1684)
-  let t1689 := (t1641 + t1685)
-  let t1697 := (sqrt ((t1689 * t1689) + (((t1688 * t1688) + (t1687 * t1687)) + (t1686 * t1686))))
-  let t1702 := (t1660 + t1682)
-  let t1703 := (t1661 + t1683)
-  let t1704 := (t1662 + t1684)
-  let t1705 := (t1663 + t1685)
-  let t1713 := (sqrt ((t1705 * t1705) + (((t1704 * t1704) + (t1703 * t1703)) + (t1702 * t1702))))
-  if t1533 < teps then
-    if t1535 < teps then
-      if t1543 < teps then
-        if t1560 = (0 : α) then
+  let t607 := (q1.v.z - q2.v.z)
+  let t608 := (q1.v.y - q2.v.y)
+  let t609 := (q1.v.x - q2.v.x)
+  let t610 := (q1.r - q2.r)
+  let t619 := (q1.v.z + q2.v.z)
+  let t620 := (q1.v.y + q2.v.y)
+  let t621 := (q1.v.x + q2.v.x)
+  let t622 := (q1.r + q2.r)
+  let t632 := ((2 : α) * (atan2 (sqrt ((t610 * t610) + (((t609 * t609) + (t608 * t608)) + (t607 * t607)))) (sqrt ((t622 * t622) + (((t621 * t621) + (t620 * t620)) + (t619 * t619))))))
+  let t634 := ((1 : α) - t)
+  let t635 := (t632 * t632)
+  let t636 := (t * t632)
+  let t637 := (t636 * t636)
+  let t638 := ((1 : α) / (1 : α))
+  let t639 := (t638 * t)
+  let t640 := (q2.v.z * t639)
+  let t641 := (q2.v.y * t639)
+  let t642 := (q2.v.x * t639)
+  let t643 := (q2.r * t639)
+  let t644 := (t634 * t632)
+  let t645 := (t644 * t644)
+  let t646 := (t638 * t634)
+  let t647 := (q1.v.z * t646)
+  let t648 := (q1.v.y * t646)
+  let t649 := (q1.v.x * t646)
+  let t650 := (q1.r * t646)
+  let t651 := (t647 + t640)
+  let t652 := (t648 + t641)
+  let t653 := (t649 + t642)
+  let t654 := (t650 + t643)
+  let t662 := (sqrt ((t654 * t654) + (((t653 * t653) + (t652 * t652)) + (t651 * t651))))
+  let t668 := ((sin t644) / t644)
+  let t670 := ((t668 / (1 : α)) * t634)
+  let t671 := (q1.v.z * t670)
+  let t672 := (q1.v.y * t670)
+  let t673 := (q1.v.x * t670)
+  let t674 := (q1.r * t670)
+  let t675 := (t671 + t640)
+  let t676 := (t672 + t641)
+  let t677 := (t673 + t642)
+  let t678 := (t674 + t643)
+  let t686 := (sqrt ((t678 * t678) + (((t677 * t677) + (t676 * t676)) + (t675 * t675))))
+  let t692 := ((sin t636) / t636)
+  let t694 := ((t692 / (1 : α)) * t)
+  let t695 := (q2.v.z * t694)
+  let t696 := (q2.v.y * t694)
+  let t697 := (q2.v.x * t694)
+  let t698 := (q2.r * t694)
+  let t699 := (t647 + t695)
+  let t700 := (t648 + t696)
+  let t701 := (t649 + t697)
+  let t702 := (t650 + t698)
+  let t710 := (sqrt ((t702 * t702) + (((t701 * t701) + (t700 * t700)) + (t699 * t699))))
+  let t715 := (t671 + t695)
+  let t716 := (t672 + t696)
+  let t717 := (t673 + t697)
+  let t718 := (t674 + t698)
+  let t726 := (sqrt ((t718 * t718) + (((t717 * t717) + (t716 * t716)) + (t715 * t715))))
+  let t732 := ((sin t632) / t632)
+  let t733 := ((1 : α) / t732)
+  let t734 := (t733 * t)
+  let t735 := (q2.v.z * t734)
+  let t736 := (q2.v.y * t734)
+  let t737 := (q2.v.x * t734)
+  let t738 := (q2.r * t734)
+  let t739 := (t733 * t634)
+  let t740 := (q1.v.z * t739)
+  let t741 := (q1.v.y * t739)
+  let t742 := (q1.v.x * t739)
+  let t743 := (q1.r * t739)
+  let t744 := (t740 + t735)
+  let t745 := (t741 + t736)
+  let t746 := (t742 + t737)
+  let t747 := (t743 + t738)
+  let t755 := (sqrt ((t747 * t747) + (((t746 * t746) + (t745 * t745)) + (t744 * t744))))
+  let t761 := ((t668 / t732) * t634)
+  let t762 := (q1.v.z * t761)
+  let t763 := (q1.v.y * t761)
+  let t764 := (q1.v.x * t761)
+  let t765 := (q1.r * t761)
+  let t766 := (t762 + t735)
+  let t767 := (t763 + t736)
+  let t768 := (t764 + t737)
+  let t769 := (t765 + t738)
+  let t777 := (sqrt ((t769 * t769) + (((t768 * t768) + (t767 * t767)) + (t766 * t766))))
+  let t783 := ((t692 / t732) * t)
+  let t784 := (q2.v.z * t783)
+  let t785 := (q2.v.y * t783)
+  let t786 := (q2.v.x * t783)
+  let t787 := (q2.r * t783)
+  let t788 := (t740 + t784)
+  let t789 := (t741 + t785)
+  let t790 := (t742 + t786)
+  let t791 := (t743 + t787)
+  let t799 := (sqrt ((t791 * t791) + (((t790 * t790) + (t789 * t789)) + (t788 * t788))))
+  let t804 := (t762 + t784)
+  let t805 := (t763 + t785)
+  let t806 := (t764 + t786)
+  let t807 := (t765 + t787)
+  let t815 := (sqrt ((t807 * t807) + (((t806 * t806) + (t805 * t805)) + (t804 * t804))))
+  if t635 < teps then
+    if t637 < teps then
+      if t645 < teps then
+        if t662 = (0 : α) then
           ⟨(1 : α), ⟨(0 : α), (0 : α), (0 : α)⟩⟩
         else
-          ⟨(t1552 / t1560), ⟨(t1551 / t1560), (t1550 / t1560), (t1549 / t1560)⟩⟩
+          ⟨(t654 / t662), ⟨(t653 / t662), (t652 / t662), (t651 / t662)⟩⟩
       else
-        if t1584 = (0 : α) then
+        if t686 = (0 : α) then
           ⟨(1 : α), ⟨(0 : α), (0 : α), (0 : α)⟩⟩
         else
-          ⟨(t1576 / t1584), ⟨(t1575 / t1584), (t1574 / t1584), (t1573 / t1584)⟩⟩
+          ⟨(t678 / t686), ⟨(t677 / t686), (t676 / t686), (t675 / t686)⟩⟩
     else
-      if t1543 < teps then
-        if t1608 = (0 : α) then
+      if t645 < teps then
+        if t710 = (0 : α) then
           ⟨(1 : α), ⟨(0 : α), (0 : α), (0 : α)⟩⟩
         else
-          ⟨(t1600 / t1608), ⟨(t1599 / t1608), (t1598 / t1608), (t1597 / t1608)⟩⟩
+          ⟨(t702 / t710), ⟨(t701 / t710), (t700 / t710), (t699 / t710)⟩⟩
       else
-        if t1624 = (0 : α) then
+        if t726 = (0 : α) then
           ⟨(1 : α), ⟨(0 : α), (0 : α), (0 : α)⟩⟩
         else
-          ⟨(t1616 / t1624), ⟨(t1615 / t1624), (t1614 / t1624), (t1613 / t1624)⟩⟩
+          ⟨(t718 / t726), ⟨(t717 / t726), (t716 / t726), (t715 / t726)⟩⟩
   else
-    if t1535 < teps then
-      if t1543 < teps then
-        if t1653 = (0 : α) then
+    if t637 < teps then
+      if t645 < teps then
+        if t755 = (0 : α) then
           ⟨(1 : α), ⟨(0 : α), (0 : α), (0 : α)⟩⟩
         else
-          ⟨(t1645 / t1653), ⟨(t1644 / t1653), (t1643 / t1653), (t1642 / t1653)⟩⟩
+          ⟨(t747 / t755), ⟨(t746 / t755), (t745 / t755), (t744 / t755)⟩⟩
       else
-        if t1675 = (0 : α) then
+        if t777 = (0 : α) then
           ⟨(1 : α), ⟨(0 : α), (0 : α), (0 : α)⟩⟩
         else
-          ⟨(t1667 / t1675), ⟨(t1666 / t1675), (t1665 / t1675), (t1664 / t1675)⟩⟩
+          ⟨(t769 / t777), ⟨(t768 / t777), (t767 / t777), (t766 / t777)⟩⟩
     else
-      if t1543 < teps then
-        if t1697 = (0 : α) then
+      if t645 < teps then
+        if t799 = (0 : α) then
           ⟨(1 : α), ⟨(0 : α), (0 : α), (0 : α)⟩⟩
         else
-          ⟨(t1689 / t1697), ⟨(t1688 / t1697), (t1687 / t1697), (t1686 / t1697)⟩⟩
+          ⟨(t791 / t799), ⟨(t790 / t799), (t789 / t799), (t788 / t799)⟩⟩
       else
-        if t1713 = (0 : α) then
+        if t815 = (0 : α) then
           ⟨(1 : α), ⟨(0 : α), (0 : α), (0 : α)⟩⟩
         else
-          ⟨(t1705 / t1713), ⟨(t1704 / t1713), (t1703 / t1713), (t1702 / t1713)⟩⟩
+          ⟨(t807 / t815), ⟨(t806 / t815), (t805 / t815), (t804 / t815)⟩⟩
 
 /-- extracted from the C++ template at T = Sym; 32 path(s) -/
 def C10.Quat.slerpShortestArc {α : Type} [Add α] [Sub α] [Mul α] [Div α] [Neg α] [LT α] [LE α] [DecidableLT α] [DecidableLE α] [DecidableEq α] [OfNat α 0] [OfNat α 1] [OfNat α 2] (teps : α) (sqrt : α → α) (sin : α → α) (atan2 : α → α → α) (q1 : Quat α) (q2 : Quat α) (t : α) : (Quat α) :=
-  let t1505 := (q1.v.z - q2.v.z)
-  let t1506 := (q1.v.y - q2.v.y)
-  let t1507 := (q1.v.x - q2.v.x)
-  let t1508 := (q1.r - q2.r)
-  let t1517 := (q1.v.z + q2.v.z)
-  let t1518 := (q1.v.y + q2.v.y)
-  let t1519 := (q1.v.x + q2.v.x)
-  let t1520 := (q1.r + q2.r)
-  let t1530 := ((2 : α) * (atan2 (sqrt ((t1508 * t1508) + (((t1507 * t1507) + (t1506 * t1506)) + (t1505 * t1505)))) (sqrt ((t1520 * t1520) + (((t1519 * t1519) + (t1518 * t1518)) + (t1517 * t1517))))))
-  let t1532 := ((1 : α) - t)
-  let t1533 := (t1530 * t1530)
-  let t1534 := (t * t1530)
-  let t1535 := (t1534 * t1534)
-  let t1536 := ((1 : α) / (1 : α))
-  let t1537 := (t1536 * t)
-  let t1538 := (q2.v.z * t1537)
-  let t1539 := (q2.v.y * t1537)
-  let t1540 := (q2.v.x * t1537)
-  let t1541 := (q2.r * t1537)
-  let t1542 := (t1532 * t1530)
-  let t1543 := (t1542 * t1542)
-  let t1544 := (t1536 * t1532)
-  let t1545 := (q1.v.z * t1544)
-  let t1546 := (q1.v.y * t1544)
-  let t1547 := (q1.v.x * t1544)
-  let t1548 := (q1.r * t1544)
-  let t1549 := (t1545 + t1538)
-  let t1550 := (t1546 + t1539)
-  let t1551 := (t1547 + t1540)
-  let t1552 := (t1548 + t1541)
-  let t1560 := (sqrt ((t1552 * t1552) + (((t1551 * t1551) + (t1550 * t1550)) + (t1549 * t1549))))
-  let t1566 := ((sin t1542) / t1542)
-  let t1568 := ((t1566 / (1 : α)) * t1532)
-  let t1569 := (q1.v.z * t1568)
-  let t1570 := (q1.v.y * t1568)
-  let t1571 := (q1.v.x * t1568)
-  let t1572 := (q1.r * t1568)
-  let t1573 := (t1569 + t1538)
-  let t1574 := (t1570 + t1539)
-  let t1575 := (t1571 + t1540)
-  let t1576 := (t1572 + t1541)
-  let t1584 := (sqrt ((t1576 * t1576) + (((t1575 * t1575) + (t1574 * t1574)) + (t1573 * t1573))))
-  let t1590 := ((sin t1534) / t1534)
-  let t1592 := ((t1590 / (1 : α)) * t)
-  let t1593 := (q2.v.z * t1592)
-  let t1594 := (q2.v.y * t1592)
-  let t1595 := (q2.v.x * t1592)
-  let t1596 := (q2.r * t1592)
-  let t1597 := (t1545 + t1593)
-  let t1598 := (t1546 + t1594)
-  let t1599 := (t1547 + t1595)
-  let t1600 := (t1548 + t1596)
-  let t1608 := (sqrt ((t1600 * t1600) + (((t1599 * t1599) + (t1598 * t1598)) + (t1597 * t1597))))
-  let t1613 := (t1569 + t1593)
-  let t1614 := (t1570 + t1594)
-  let t1615 := (t1571 + t1595)
-  let t1616 := (t1572 + t1596)
-  let t1624 := (sqrt ((t1616 * t1616) + (((t1615 * t1615) + (t1614 * t1614)) + (t1613 * t1613))))
-  let t1630 := ((sin t1530) / t1530)
-  let t1631 := ((1 : α) / t1630)
-  let t1632 := (t1631 * t)
-  let t1633 := (q2.v.z * t1632)
-  let t1634 := (q2.v.y * t1632)
-  let t1635 := (q2.v.x * t1632)
-  let t1636 := (q2.r * t1632)
-  let t1637 := (t1631 * t1532)
-  let t1638 := (q1.v.z * t1637)
-  let t1639 := (q1.v.y * t1637)
-  let t1640 := (q1.v.x * t1637)
-  let t1641 := (q1.r * t1637)
-  let t1642 := (t1638 + t1633)
-  let t1643 := (t1639 + t1634)
-  let t1644 := (t1640 + t1635)
-  let t1645 := (t1641 + t1636)
-  let t1653 := (sqrt ((t1645 * t1645) + (((t1644 * t1644) + (t1643 * t1643)) + (t1642 * t1642))))
-  let t1659 := ((t1566 / t1630) * t1532)
-  let t1660 := (q1.v.z * t1659)
-  let t1661 := (q1.v.y * t1659)
-  let t1662 := (q1.v.x * t1659)
-  let t1663 := (q1.r * t1659)
-  let t1664 := (t1660 + t1633)
-  let t1665 := (t1661 + t1634)
-  let t1666 := (t1662 + t1635)
-  let t1667 := (t1663 + t1636)
-  let t1675 := (sqrt ((t1667 * t1667) + (((t1666 * t1666) + (t1665 * t1665)) + (t1664 * t1664))))
-  let t1681 := ((t1590 / t1630) * t)
-  let t1682 := (q2.v.z * t1681)
-  let t1683 := (q2.v.y * t1681)
-  let t1684 := (q2.v.x * t1681)
-  let t1685 := (q2.r * t1681)
-  let t1686 := (t1638 + t1682)
-  let t1687 := (t1639 + t1683)
-  let t1688 := (t1640 + t1684)
-  let t1689 := (t1641 + t1685)
-  let t1697 := (sqrt ((t1689 * t1689) + (((t1688 * t1688) + (t1687 * t1687)) + (t1686 * t1686))))
-  let t1702 := (t1660 + t1682)
-  let t1703 := (t1661 + t1683)
-  let t1704 := (t1662 + t1684)
-  let t1705 := (t1663 + t1685)
-  let t1713 := (sqrt ((t1705 * t1705) + (((t1704 * t1704) + (t1703 * t1703)) + (t1702 * t1702))))
-  let t1724 := ((q1.r * q2.r) + (((q1.v.x * q2.v.x) + (q1.v.y * q2.v.y)) + (q1.v.z * q2.v.z)))
-  let t1725 := (-q2.v.z)
-  let t1726 := (-q2.v.y)
-  let t1727 := (-q2.v.x)
-  let t1728 := (-q2.r)
-  let t1729 := (q1.v.z - t1725)
-  let t1730 := (q1.v.y - t1726)
-  let t1731 := (q1.v.x - t1727)
-  let t1732 := (q1.r - t1728)
-  let t1741 := (q1.v.z + t1725)
-  let t1742 := (q1.v.y + t1726)
-  let t1743 := (q1.v.x + t1727)
-  let t1744 := (q1.r + t1728)
-  let t1754 := ((2 : α) * (atan2 (sqrt ((t1732 * t1732) + (((t1731 * t1731) + (t1730 * t1730)) + (t1729 * t1729)))) (sqrt ((t1744 * t1744) + (((t1743 * t1743) + (t1742 * t1742)) + (t1741 * t1741))))))
-  let t1755 := (t1754 * t1754)
-  let t1756 := (t * t1754)
-  let t1757 := (t1756 * t1756)
-  let t1758 := (t1725 * t1537)
-  let t1759 := (t1726 * t1537)
-  let t1760 := (t1727 * t1537)
-  let t1761 := (t1728 * t1537)
-  let t1762 := (t1532 * t1754)
-  let t1763 := (t1762 * t1762)
-  let t1764 := (t1545 + t1758)
-  let t1765 := (t1546 + t1759)
-  let t1766 := (t1547 + t1760)
-  let t1767 := (t1548 + t1761)
-  let t1775 := (sqrt ((t1767 * t1767) + (((t1766 * t1766) + (t1765 * t1765)) + (t1764 * t1764))))
-  let t1781 := ((sin t1762) / t1762)
-  let t1783 := ((t1781 / (1 : α)) * t1532)
-  let t1784 := (q1.v.z * t1783)
-  let t1785 := (q1.v.y * t1783)
-  let t1786 := (q1.v.x * t1783)
-  let t1787 := (q1.r * t1783)
-  let t1788 := (t1784 + t1758)
-  let t1789 := (t1785 + t1759)
-  let t1790 := (t1786 + t1760)
-  let t1791 := (t1787 + t1761)
-  let t1799 := (sqrt ((t1791 * t1791) + (((t1790 * t1790) + (t1789 * t1789)) + (t1788 * t1788))))
-  let t1805 := ((sin t1756) / t1756)
-  let t1807 := ((t1805 / (1 : α)) * t)
-  let t1808 := (t1725 * t1807)
-  let t1809 := (t1726 * t1807)
-  let t1810 := (t1727 * t1807)
-  let t1811 := (t1728 * t1807)
-  let t1812 := (t1545 + t1808)
-  let t1813 := (t1546 + t1809)
-  let t1814 := (t1547 + t1810)
-  let t1815 := (t1548 + t1811)
-  let t1823 := (sqrt ((t1815 * t1815) + (((t1814 * t1814) + (t1813 * t1813)) + (t1812 * t1812))))
-  let t1828 := (t1784 + t1808)
-  let t1829 := (t1785 + t1809)
-  let t1830 := (t1786 + t1810)
-  let t1831 := (t1787 + t1811)
-  let t1839 := (sqrt ((t1831 * t1831) + (((t1830 * t1830) + (t1829 * t1829)) + (t1828 * t1828))))
-  let t1845 := ((sin t1754) / t1754)
-  let t1846 := ((1 : α) / t1845)
-  let t1847 := (t1846 * t)
-  let t1848 := (t1725 * t1847)
-  let t1849 := (t1726 * t1847)
-  let t1850 := (t1727 * t1847)
-  let t1851 := (t1728 * t1847)
-  let t1852 := (t1846 * t1532)
-  let t1853 := (q1.v.z * t1852)
-  let t1854 := (q1.v.y * t1852)
-  let t1855 := (q1.v.x * t1852)
-  let t1856 := (q1.r * t1852)
-  let t1857 := (t1853 + t1848)
-  let t1858 := (t1854 + t1849)
-  let t1859 := (t1855 + t1850)
-  let t1860 := (t1856 + t1851)
-  let t1868 := (sqrt ((t1860 * t1860) + (((t1859 * t1859) + (t1858 * t1858)) + (t1857 * t1857))))
-  let t1874 := ((t1781 / t1845) * t1532)
-  let t1875 := (q1.v.z * t1874)
-  let t1876 := (q1.v.y * t1874)
-  let t1877 := (q1.v.x * t1874)
-  let t1878 := (q1.r * t1874)
-  let t1879 := (t1875 + t1848)
-  let t1880 := (t1876 + t1849)
-  let t1881 := (t1877 + t1850)
-  let t1882 := (t1878 + t1851)
-  let t1890 := (sqrt ((t1882 * t1882) + (((t1881 * t1881) + (t1880 * t1880)) + (t1879 * t1879))))
-  let t1896 := ((t1805 / t1845) * t)
-  let t1897 := (t1725 * t1896)
-  let t1898 := (t1726 * t1896)
-  let t1899 := (t1727 * t1896)
-  let t1900 := (t1728 * t1896)
-  let t1901 := (t1853 + t1897)
-  let t1902 := (t1854 + t1898)
-  let t1903 := (t1855 + t1899)
-  let t1904 := (t1856 + t1900)
-  let t1912 := (sqrt ((t1904 * t1904) + (((t1903 * t1903) + (t1902 * t1902)) + (t1901 * t1901))))
-  let t1917 := (t1875 + t1897)
-  let t1918 := (t1876 + t1898)
-  let t1919 := (t1877 + t1899)
-  let t1920 := (t1878 + t1900)
-  let t1928 := (sqrt ((t1920 * t1920) + (((t1919 * t1919) + (t1918 * t1918)) + (t1917 * t1917))))
-  if (0 : α) ≤ t1724 then
-    if t1533 < teps then
-      if t1535 < teps then
-        if t1543 < teps then
-          if t1560 = (0 : α) then
+  let t607 := (q1.v.z - q2.v.z)
+  let t608 := (q1.v.y - q2.v.y)
+  let t609 := (q1.v.x - q2.v.x)
+  let t610 := (q1.r - q2.r)
+  let t619 := (q1.v.z + q2.v.z)
+  let t620 := (q1.v.y + q2.v.y)
+  let t621 := (q1.v.x + q2.v.x)
+  let t622 := (q1.r + q2.r)
+  let t632 := ((2 : α) * (atan2 (sqrt ((t610 * t610) + (((t609 * t609) + (t608 * t608)) + (t607 * t607)))) (sqrt ((t622 * t622) + (((t621 * t621) + (t620 * t620)) + (t619 * t619))))))
+  let t634 := ((1 : α) - t)
+  let t635 := (t632 * t632)
+  let t636 := (t * t632)
+  let t637 := (t636 * t636)
+  let t638 := ((1 : α) / (1 : α))
+  let t639 := (t638 * t)
+  let t640 := (q2.v.z * t639)
+  let t641 := (q2.v.y * t639)
+  let t642 := (q2.v.x * t639)
+  let t643 := (q2.r * t639)
+  let t644 := (t634 * t632)
+  let t645 := (t644 * t644)
+  let t646 := (t638 * t634)
+  let t647 := (q1.v.z * t646)
+  let t648 := (q1.v.y * t646)
+  let t649 := (q1.v.x * t646)
+  let t650 := (q1.r * t646)
+  let t651 := (t647 + t640)
+  let t652 := (t648 + t641)
+  let t653 := (t649 + t642)
+  let t654 := (t650 + t643)
+  let t662 := (sqrt ((t654 * t654) + (((t653 * t653) + (t652 * t652)) + (t651 * t651))))
+  let t668 := ((sin t644) / t644)
+  let t670 := ((t668 / (1 : α)) * t634)
+  let t671 := (q1.v.z * t670)
+  let t672 := (q1.v.y * t670)
+  let t673 := (q1.v.x * t670)
+  let t674 := (q1.r * t670)
+  let t675 := (t671 + t640)
+  let t676 := (t672 + t641)
+  let t677 := (t673 + t642)
+  let t678 := (t674 + t643)
+  let t686 := (sqrt ((t678 * t678) + (((t677 * t677) + (t676 * t676)) + (t675 * t675))))
+  let t692 := ((sin t636) / t636)
+  let t694 := ((t692 / (1 : α)) * t)
+  let t695 := (q2.v.z * t694)
+  let t696 := (q2.v.y * t694)
+  let t697 := (q2.v.x * t694)
+  let t698 := (q2.r * t694)
+  let t699 := (t647 + t695)
+  let t700 := (t648 + t696)
+  let t701 := (t649 + t697)
+  let t702 := (t650 + t698)
+  let t710 := (sqrt ((t702 * t702) + (((t701 * t701) + (t700 * t700)) + (t699 * t699))))
+  let t715 := (t671 + t695)
+  let t716 := (t672 + t696)
+  let t717 := (t673 + t697)
+  let t718 := (t674 + t698)
+  let t726 := (sqrt ((t718 * t718) + (((t717 * t717) + (t716 * t716)) + (t715 * t715))))
+  let t732 := ((sin t632) / t632)
+  let t733 := ((1 : α) / t732)
+  let t734 := (t733 * t)
+  let t735 := (q2.v.z * t734)
+  let t736 := (q2.v.y * t734)
+  let t737 := (q2.v.x * t734)
+  let t738 := (q2.r * t734)
+  let t739 := (t733 * t634)
+  let t740 := (q1.v.z * t739)
+  let t741 := (q1.v.y * t739)
+  let t742 := (q1.v.x * t739)
+  let t743 := (q1.r * t739)
+  let t744 := (t740 + t735)
+  let t745 := (t741 + t736)
+  let t746 := (t742 + t737)
+  let t747 := (t743 + t738)
+  let t755 := (sqrt ((t747 * t747) + (((t746 * t746) + (t745 * t745)) + (t744 * t744))))
+  let t761 := ((t668 / t732) * t634)
+  let t762 := (q1.v.z * t761)
+  let t763 := (q1.v.y * t761)
+  let t764 := (q1.v.x * t761)
+  let t765 := (q1.r * t761)
+  let t766 := (t762 + t735)
+  let t767 := (t763 + t736)
+  let t768 := (t764 + t737)
+  let t769 := (t765 + t738)
+  let t777 := (sqrt ((t769 * t769) + (((t768 * t768) + (t767 * t767)) + (t766 * t766))))
+  let t783 := ((t692 / t732) * t)
+  let t784 := (q2.v.z * t783)
+  let t785 := (q2.v.y * t783)
+  let t786 := (q2.v.x * t783)
+  let t787 := (q2.r * t783)
+  let t788 := (t740 + t784)
+  let t789 := (t741 + t785)
+  let t790 := (t742 + t786)
+  let t791 := (t743 + t787)
+  let t799 := (sqrt ((t791 * t791) + (((t790 * t790) + (t789 * t789)) + (t788 * t788))))
+  let t804 := (t762 + t784)
+  let t805 := (t763 + t785)
+  let t806 := (t764 + t786)
+  let t807 := (t765 + t787)
+  let t815 := (sqrt ((t807 * t807) + (((t806 * t806) + (t805 * t805)) + (t804 * t804))))
+  let t826 := ((q1.r * q2.r) + (((q1.v.x * q2.v.x) + (q1.v.y * q2.v.y)) + (q1.v.z * q2.v.z)))
+  let t827 := (-q2.v.z)
+  let t828 := (-q2.v.y)
+  let t829 := (-q2.v.x)
+  let t830 := (-q2.r)
+  let t831 := (q1.v.z - t827)
+  let t832 := (q1.v.y - t828)
+  let t833 := (q1.v.x - t829)
+  let t834 := (q1.r - t830)
+  let t843 := (q1.v.z + t827)
+  let t844 := (q1.v.y + t828)
+  let t845 := (q1.v.x + t829)
+  let t846 := (q1.r + t830)
+  let t856 := ((2 : α) * (atan2 (sqrt ((t834 * t834) + (((t833 * t833) + (t832 * t832)) + (t831 * t831)))) (sqrt ((t846 * t846) + (((t845 * t845) + (t844 * t844)) + (t843 * t843))))))
+  let t857 := (t856 * t856)
+  let t858 := (t * t856)
+  let t859 := (t858 * t858)
+  let t860 := (t827 * t639)
+  let t861 := (t828 * t639)
+  let t862 := (t829 * t639)
+  let t863 := (t830 * t639)
+  let t864 := (t634 * t856)
+  let t865 := (t864 * t864)
+  let t866 := (t647 + t860)
+  let t867 := (t648 + t861)
+  let t868 := (t649 + t862)
+  let t869 := (t650 + t863)
+  let t877 := (sqrt ((t869 * t869) + (((t868 * t868) + (t867 * t867)) + (t866 * t866))))
+  let t883 := ((sin t864) / t864)
+  let t885 := ((t883 / (1 : α)) * t634)
+  let t886 := (q1.v.z * t885)
+  let t887 := (q1.v.y * t885)
+  let t888 := (q1.v.x * t885)
+  let t889 := (q1.r * t885)
+  let t890 := (t886 + t860)
+  let t891 := (t887 + t861)
+  let t892 := (t888 + t862)
+  let t893 := (t889 + t863)
+  let t901 := (sqrt ((t893 * t893) + (((t892 * t892) + (t891 * t891)) + (t890 * t890))))
+  let t907 := ((sin t858) / t858)
+  let t909 := ((t907 / (1 : α)) * t)
+  let t910 := (t827 * t909)
+  let t911 := (t828 * t909)
+  let t912 := (t829 * t909)
+  let t913 := (t830 * t909)
+  let t914 := (t647 + t910)
+  let t915 := (t648 + t911)
+  let t916 := (t649 + t912)
+  let t917 := (t650 + t913)
+  let t925 := (sqrt ((t917 * t917) + (((t916 * t916) + (t915 * t915)) + (t914 * t914))))
+  let t930 := (t886 + t910)
+  let t931 := (t887 + t911)
+  let t932 := (t888 + t912)
+  let t933 := (t889 + t913)
+  let t941 := (sqrt ((t933 * t933) + (((t932 * t932) + (t931 * t931)) + (t930 * t930))))
+  let t947 := ((sin t856) / t856)
+  let t948 := ((1 : α) / t947)
+  let t949 := (t948 * t)
+  let t950 := (t827 * t949)
+  let t951 := (t828 * t949)
+  let t952 := (t829 * t949)
+  let t953 := (t830 * t949)
+  let t954 := (t948 * t634)
+  let t955 := (q1.v.z * t954)
+  let t956 := (q1.v.y * t954)
+  let t957 := (q1.v.x * t954)
+  let t958 := (q1.r * t954)
+  let t959 := (t955 + t950)
+  let t960 := (t956 + t951)
+  let t961 := (t957 + t952)
+  let t962 := (t958 + t953)
+  let t970 := (sqrt ((t962 * t962) + (((t961 * t961) + (t960 * t960)) + (t959 * t959))))
+  let t976 := ((t883 / t947) * t634)
+  let t977 := (q1.v.z * t976)
+  let t978 := (q1.v.y * t976)
+  let t979 := (q1.v.x * t976)
+  let t980 := (q1.r * t976)
+  let t981 := (t977 + t950)
+  let t982 := (t978 + t951)
+  let t983 := (t979 + t952)
+  let t984 := (t980 + t953)
+  let t992 := (sqrt ((t984 * t984) + (((t983 * t983) + (t982 * t982)) + (t981 * t981))))
+  let t998 := ((t907 / t947) * t)
+  let t999 := (t827 * t998)
+  let t1000 := (t828 * t998)
+  let t1001 := (t829 * t998)
+  let t1002 := (t830 * t998)
+  let t1003 := (t955 + t999)
+  let t1004 := (t956 + t1000)
+  let t1005 := (t957 + t1001)
+  let t1006 := (t958 + t1002)
+  let t1014 := (sqrt ((t1006 * t1006) + (((t1005 * t1005) + (t1004 * t1004)) + (t1003 * t1003))))
+  let t1019 := (t977 + t999)
+  let t1020 := (t978 + t1000)
+  let t1021 := (t979 + t1001)
+  let t1022 := (t980 + t1002)
+  let t1030 := (sqrt ((t1022 * t1022) + (((t1021 * t1021) + (t1020 * t1020)) + (t1019 * t1019))))
+  if (0 : α) ≤ t826 then
+    if t635 < teps then
+      if t637 < teps then
+        if t645 < teps then
+          if t662 = (0 : α) then
             ⟨(1 : α), ⟨(0 : α), (0 : α), (0 : α)⟩⟩
           else
-            ⟨(t1552 / t1560), ⟨(t1551 / t1560), (t1550 / t1560), (t1549 / t1560)⟩⟩
+            ⟨(t654 / t662), ⟨(t653 / t662), (t652 / t662), (t651 / t662)⟩⟩
         else
-          if t1584 = (0 : α) then
+          if t686 = (0 : α) then
             ⟨(1 : α), ⟨(0 : α), (0 : α), (0 : α)⟩⟩
           else
-            ⟨(t1576 / t1584), ⟨(t1575 / t1584), (t1574 / t1584), (t1573 / t1584)⟩⟩
+            ⟨(t678 / t686), ⟨(t677 / t686), (t676 / t686), (t675 / t686)⟩⟩
       else
-        if t1543 < teps then
-          if t1608 = (0 : α) then
+        if t645 < teps then
+          if t710 = (0 : α) then
             ⟨(1 : α), ⟨(0 : α), (0 : α), (0 : α)⟩⟩
           else
-            ⟨(t1600 / t1608), ⟨(t1599 / t1608), (t1598 / t1608), (t1597 / t1608)⟩⟩
+            ⟨(t702 / t710), ⟨(t701 / t710), (t700 / t710), (t699 / t710)⟩⟩
         else
-          if t1624 = (0 : α) then
+          if t726 = (0 : α) then
             ⟨(1 : α), ⟨(0 : α), (0 : α), (0 : α)⟩⟩
           else
-            ⟨(t1616 / t1624), ⟨(t1615 / t1624), (t1614 / t1624), (t1613 / t1624)⟩⟩
+            ⟨(t718 / t726), ⟨(t717 / t726), (t716 / t726), (t715 / t726)⟩⟩
     else
-      if t1535 < teps then
-        if t1543 < teps then
-          if t1653 = (0 : α) then
+      if t637 < teps then
+        if t645 < teps then
+          if t755 = (0 : α) then
             ⟨(1 : α), ⟨(0 : α), (0 : α), (0 : α)⟩⟩
           else
-            ⟨(t1645 / t1653), ⟨(t1644 / t1653), (t1643 / t1653), (t1642 / t1653)⟩⟩
+            ⟨(t747 / t755), ⟨(t746 / t755), (t745 / t755), (t744 / t755)⟩⟩
         else
-          if t1675 = (0 : α) then
+          if t777 = (0 : α) then
             ⟨(1 : α), ⟨(0 : α), (0 : α), (0 : α)⟩⟩
           else
-            ⟨(t1667 / t1675), ⟨(t1666 / t1675), (t1665 / t1675), (t1664 / t1675)⟩⟩
+            ⟨(t769 / t777), ⟨(t768 / t777), (t767 / t777), (t766 / t777)⟩⟩
       else
-        if t1543 < teps then
-          if t1697 = (0 : α) then
+        if t645 < teps then
+          if t799 = (0 : α) then
             ⟨(1 : α), ⟨(0 : α), (0 : α), (0 : α)⟩⟩
           else
-            ⟨(t1689 / t1697), ⟨(t1688 / t1697), (t1687 / t1697), (t1686 / t1697)⟩⟩
+            ⟨(t791 / t799), ⟨(t790 / t799), (t789 / t799), (t788 / t799)⟩⟩
         else
-          if t1713 = (0 : α) then
+          if t815 = (0 : α) then
             ⟨(1 : α), ⟨(0 : α), (0 : α), (0 : α)⟩⟩
           else
-            ⟨(t1705 / t1713), ⟨(t1704 / t1713), (t1703 / t1713), (t1702 / t1713)⟩⟩
+            ⟨(t807 / t815), ⟨(t806 / t815), (t805 / t815), (t804 / t815)⟩⟩
   else
-    if t1755 < teps then
-      if t1757 < teps then
-        if t1763 < teps then
-          if t1775 = (0 : α) then
+    if t857 < teps then
+      if t859 < teps then
+        if t865 < teps then
+          if t877 = (0 : α) then
             ⟨(1 : α), ⟨(0 : α), (0 : α), (0 : α)⟩⟩
           else
-            ⟨(t1767 / t1775), ⟨(t1766 / t1775), (t1765 / t1775), (t1764 / t1775)⟩⟩
+            ⟨(t869 / t877), ⟨(t868 / t877), (t867 / t877), (t866 / t877)⟩⟩
         else
-          if t1799 = (0 : α) then
+          if t901 = (0 : α) then
             ⟨(1 : α), ⟨(0 : α), (0 : α), (0 : α)⟩⟩
           else
-            ⟨(t1791 / t1799), ⟨(t1790 / t1799), (t1789 / t1799), (t1788 / t1799)⟩⟩
+            ⟨(t893 / t901), ⟨(t892 / t901), (t891 / t901), (t890 / t901)⟩⟩
       else
-        if t1763 < teps then
-          if t1823 = (0 : α) then
+        if t865 < teps then
+          if t925 = (0 : α) then
             ⟨(1 : α), ⟨(0 : α), (0 : α), (0 : α)⟩⟩
           else
-            ⟨(t1815 / t1823), ⟨(t1814 / t1823), (t1813 / t1823), (t1812 / t1823)⟩⟩
+            ⟨(t917 / t925), ⟨(t916 / t925), (t915 / t925), (t914 / t925)⟩⟩
         else
-          if t1839 = (0 : α) then
+          if t941 = (0 : α) then
             ⟨(1 : α), ⟨(0 : α), (0 : α), (0 : α)⟩⟩
           else
-            ⟨(t1831 / t1839), ⟨(t1830 / t1839), (t1829 / t1839), (t1828 / t1839)⟩⟩
+            ⟨(t933 / t941), ⟨(t932 / t941), (t931 / t941), (t930 / t941)⟩⟩
     else
-      if t1757 < teps then
-        if t1763 < teps then
-          if t1868 = (0 : α) then
+      if t859 < teps then
+        if t865 < teps then
+          if t970 = (0 : α) then
             ⟨(1 : α), ⟨(0 : α), (0 : α), (0 : α)⟩⟩
           else
-            ⟨(t1860 / t1868), ⟨(t1859 / t1868), (t1858 / t1868), (t1857 / t1868)⟩⟩
+            ⟨(t962 / t970), ⟨(t961 / t970), (t960 / t970), (t959 / t970)⟩⟩
         else
-          if t1890 = (0 : α) then
+          if t992 = (0 : α) then
             ⟨(1 : α), ⟨(0 : α), (0 : α), (0 : α)⟩⟩
           else
-            ⟨(t1882 / t1890), ⟨(t1881 / t1890), (t1880 / t1890), (t1879 / t1890)⟩⟩
+            ⟨(t984 / t992), ⟨(t983 / t992), (t982 / t992), (t981 / t992)⟩⟩
       else
-        if t1763 < teps then
-          if t1912 = (0 : α) then
+        if t865 < teps then
+          if t1014 = (0 : α) then
             ⟨(1 : α), ⟨(0 : α), (0 : α), (0 : α)⟩⟩
           else
-            ⟨(t1904 / t1912), ⟨(t1903 / t1912), (t1902 / t1912), (t1901 / t1912)⟩⟩
+            ⟨(t1006 / t1014), ⟨(t1005 / t1014), (t1004 / t1014), (t1003 / t1014)⟩⟩
         else
-          if t1928 = (0 : α) then
+          if t1030 = (0 : α) then
             ⟨(1 : α), ⟨(0 : α), (0 : α), (0 : α)⟩⟩
           else
-            ⟨(t1920 / t1928), ⟨(t1919 / t1928), (t1918 / t1928), (t1917 / t1928)⟩⟩
+            ⟨(t1022 / t1030), ⟨(t1021 / t1030), (t1020 / t1030), (t1019 / t1030)⟩⟩
 
 /-- extracted from the C++ template at T = Sym; 96 path(s) -/
 def C10.Quat.intermediate {α : Type} [Add α] [Sub α] [Mul α] [Div α] [Neg α] [LT α] [LE α] [DecidableLT α] [DecidableLE α] [DecidableEq α] [OfNat α 0] [OfNat α 1] [OfNat α 2] [OfNat α 4] (tmin : α) (tmax : α) (sqrt : α → α) (sin : α → α) (cos : α → α) (acos : α → α) (q0 : Quat α) (q1 : Quat α) (q2 : Quat α) : (Quat α) :=
-  let t1943 := ((q1.r * q1.r) + (((q1.v.x * q1.v.x) + (q1.v.y * q1.v.y)) + (q1.v.z * q1.v.z)))
-  let t1947 := ((-q1.v.z) / t1943)
-  let t1948 := ((-q1.v.y) / t1943)
-  let t1949 := ((-q1.v.x) / t1943)
-  let t1950 := (q1.r / t1943)
-  let t1969 := (((t1950 * q2.v.z) + (t1947 * q2.r)) + ((t1949 * q2.v.y) - (t1948 * q2.v.x)))
-  let t1970 := (((t1950 * q2.v.y) + (t1948 * q2.r)) + ((t1947 * q2.v.x) - (t1949 * q2.v.z)))
-  let t1971 := (((t1950 * q2.v.x) + (t1949 * q2.r)) + ((t1948 * q2.v.z) - (t1947 * q2.v.y)))
-  let t1997 := (((t1950 * q0.v.z) + (t1947 * q0.r)) + ((t1949 * q0.v.y) - (t1948 * q0.v.x)))
-  let t1998 := (((t1950 * q0.v.y) + (t1948 * q0.r)) + ((t1947 * q0.v.x) - (t1949 * q0.v.z)))
-  let t1999 := (((t1950 * q0.v.x) + (t1949 * q0.r)) + ((t1948 * q0.v.z) - (t1947 * q0.v.y)))
-  let t2008 := (acos (smin ((t1950 * q2.r) - (((t1949 * q2.v.x) + (t1948 * q2.v.y)) + (t1947 * q2.v.z))) (1 : α)))
-  let t2010 := (acos (smin ((t1950 * q0.r) - (((t1949 * q0.v.x) + (t1948 * q0.v.y)) + (t1947 * q0.v.z))) (1 : α)))
-  let t2015 := ((t1997 + t1969) * (-((1 : α) / (4 : α))))
-  let t2016 := ((t1998 + t1970) * (-((1 : α) / (4 : α))))
-  let t2017 := ((t1999 + t1971) * (-((1 : α) / (4 : α))))
-  let t2019 := (V3.length tmin tmax sqrt ⟨t2017, t2016, t2015⟩)
-  let t2020 := (sin t2019)
-  let t2021 := (sabs t2019)
-  let t2022 := (tmax * t2021)
-  let t2023 := (sabs t2020)
-  let t2024 := (cos t2019)
-  let t2025 := (t2015 * (1 : α))
-  let t2026 := (t2016 * (1 : α))
-  let t2027 := (t2017 * (1 : α))
-  let t2037 := (q1.v.z * t2024)
-  let t2038 := (q1.v.y * t2024)
-  let t2039 := (q1.v.x * t2024)
-  let t2046 := (((q1.r * t2025) + t2037) + ((q1.v.x * t2026) - (q1.v.y * t2027)))
-  let t2047 := (((q1.r * t2026) + t2038) + ((q1.v.z * t2027) - (q1.v.x * t2025)))
-  let t2048 := (((q1.r * t2027) + t2039) + ((q1.v.y * t2025) - (q1.v.z * t2026)))
-  let t2054 := (q1.r * t2024)
-  let t2055 := (t2054 - (((q1.v.x * t2027) + (q1.v.y * t2026)) + (q1.v.z * t2025)))
-  let t2063 := (sqrt ((t2055 * t2055) + (((t2048 * t2048) + (t2047 * t2047)) + (t2046 * t2046))))
-  let t2068 := (t2020 / t2019)
-  let t2069 := (t2015 * t2068)
-  let t2070 := (t2016 * t2068)
-  let t2071 := (t2017 * t2068)
-  let t2087 := (((q1.r * t2069) + t2037) + ((q1.v.x * t2070) - (q1.v.y * t2071)))
-  let t2088 := (((q1.r * t2070) + t2038) + ((q1.v.z * t2071) - (q1.v.x * t2069)))
-  let t2089 := (((q1.r * t2071) + t2039) + ((q1.v.y * t2069) - (q1.v.z * t2070)))
-  let t2095 := (t2054 - (((q1.v.x * t2071) + (q1.v.y * t2070)) + (q1.v.z * t2069)))
-  let t2103 := (sqrt ((t2095 * t2095) + (((t2089 * t2089) + (t2088 * t2088)) + (t2087 * t2087))))
-  let t2104 := (t2095 / t2103)
-  let t2105 := (t2089 / t2103)
-  let t2106 := (t2088 / t2103)
-  let t2107 := (t2087 / t2103)
-  let t2108 := (sin t2010)
-  let t2109 := (sabs t2108)
-  let t2110 := (tmax * t2109)
-  let t2111 := (sabs t2010)
-  let t2112 := (t1997 * (1 : α))
-  let t2113 := (t1998 * (1 : α))
-  let t2114 := (t1999 * (1 : α))
-  let t2118 := ((t2112 + t1969) * (-((1 : α) / (4 : α))))
-  let t2119 := ((t2113 + t1970) * (-((1 : α) / (4 : α))))
-  let t2120 := ((t2114 + t1971) * (-((1 : α) / (4 : α))))
-  let t2121 := (V3.length tmin tmax sqrt ⟨t2120, t2119, t2118⟩)
-  let t2122 := (sin t2121)
-  let t2123 := (sabs t2121)
-  let t2124 := (tmax * t2123)
-  let t2125 := (sabs t2122)
-  let t2126 := (cos t2121)
-  let t2127 := (t2118 * (1 : α))
-  let t2128 := (t2119 * (1 : α))
-  let t2129 := (t2120 * (1 : α))
-  let t2139 := (q1.v.z * t2126)
-  let t2140 := (q1.v.y * t2126)
-  let t2141 := (q1.v.x * t2126)
-  let t2148 := (((q1.r * t2127) + t2139) + ((q1.v.x * t2128) - (q1.v.y * t2129)))
-  let t2149 := (((q1.r * t2128) + t2140) + ((q1.v.z * t2129) - (q1.v.x * t2127)))
-  let t2150 := (((q1.r * t2129) + t2141) + ((q1.v.y * t2127) - (q1.v.z * t2128)))
-  let t2156 := (q1.r * t2126)
-  let t2157 := (t2156 - (((q1.v.x * t2129) + (q1.v.y * t2128)) + (q1.v.z * t2127)))
-  let t2165 := (sqrt ((t2157 * t2157) + (((t2150 * t2150) + (t2149 * t2149)) + (t2148 * t2148))))
-  let t2170 := (t2122 / t2121)
-  let t2171 := (t2118 * t2170)
-  let t2172 := (t2119 * t2170)
-  let t2173 := (t2120 * t2170)
-  let t2189 := (((q1.r * t2171) + t2139) + ((q1.v.x * t2172) - (q1.v.y * t2173)))
-  let t2190 := (((q1.r * t2172) + t2140) + ((q1.v.z * t2173) - (q1.v.x * t2171)))
-  let t2191 := (((q1.r * t2173) + t2141) + ((q1.v.y * t2171) - (q1.v.z * t2172)))
-  let t2197 := (t2156 - (((q1.v.x * t2173) + (q1.v.y * t2172)) + (q1.v.z * t2171)))
-  let t2205 := (sqrt ((t2197 * t2197) + (((t2191 * t2191) + (t2190 * t2190)) + (t2189 * t2189))))
-  let t2206 := (t2197 / t2205)
-  let t2207 := (t2191 / t2205)
-  let t2208 := (t2190 / t2205)
-  let t2209 := (t2189 / t2205)
-  let t2210 := (t2010 / t2108)
-  let t2211 := (t1997 * t2210)
-  let t2212 := (t1998 * t2210)
-  let t2213 := (t1999 * t2210)
-  let t2217 := ((t2211 + t1969) * (-((1 : α) / (4 : α))))
-  let t2218 := ((t2212 + t1970) * (-((1 : α) / (4 : α))))
-  let t2219 := ((t2213 + t1971) * (-((1 : α) / (4 : α))))
-  let t2220 := (V3.length tmin tmax sqrt ⟨t2219, t2218, t2217⟩)
-  let t2221 := (sin t2220)
-  let t2222 := (sabs t2220)
-  let t2223 := (tmax * t2222)
-  let t2224 := (sabs t2221)
-  let t2225 := (cos t2220)
-  let t2226 := (t2217 * (1 : α))
-  let t2227 := (t2218 * (1 : α))
-  let t2228 := (t2219 * (1 : α))
-  let t2238 := (q1.v.z * t2225)
-  let t2239 := (q1.v.y * t2225)
-  let t2240 := (q1.v.x * t2225)
-  let t2247 := (((q1.r * t2226) + t2238) + ((q1.v.x * t2227) - (q1.v.y * t2228)))
-  let t2248 := (((q1.r * t2227) + t2239) + ((q1.v.z * t2228) - (q1.v.x * t2226)))
-  let t2249 := (((q1.r * t2228) + t2240) + ((q1.v.y * t2226) - (q1.v.z * t2227)))
-  let t2255 := (q1.r * t2225)
-  let t2256 := (t2255 - (((q1.v.x * t2228) + (q1.v.y * t2227)) + (q1.v.z * t2226)))
-  let t2264 := (sqrt ((t2256 * t2256) + (((t2249 * t2249) + (t2248 * t2248)) + (t2247 * t2247))))
-  let t2265 := (t2256 / t2264)
-  let t2266 := (t2249 / t2264)
-  let t2267 := (t2248 / t2264)
-  let t2268 := (t2247 / t2264)
-  let t2269 := (t2221 / t2220)
-  let t2270 := (t2217 * t2269)
-  let t2271 := (t2218 * t2269)
-  let t2272 := (t2219 * t2269)
-  let t2288 := (((q1.r * t2270) + t2238) + ((q1.v.x * t2271) - (q1.v.y * t2272)))
-  let t2289 := (((q1.r * t2271) + t2239) + ((q1.v.z * t2272) - (q1.v.x * t2270)))
-  let t2290 := (((q1.r * t2272) + t2240) + ((q1.v.y * t2270) - (q1.v.z * t2271)))
-  let t2296 := (t2255 - (((q1.v.x * t2272) + (q1.v.y * t2271)) + (q1.v.z * t2270)))
-  let t2304 := (sqrt ((t2296 * t2296) + (((t2290 * t2290) + (t2289 * t2289)) + (t2288 * t2288))))
-  let t2305 := (t2296 / t2304)
-  let t2306 := (t2290 / t2304)
-  let t2307 := (t2289 / t2304)
-  let t2308 := (t2288 / t2304)
-  let t2309 := (sin t2008)
-  let t2310 := (sabs t2309)
-  let t2311 := (tmax * t2310)
-  let t2312 := (sabs t2008)
-  let t2313 := (t1969 * (1 : α))
-  let t2314 := (t1970 * (1 : α))
-  let t2315 := (t1971 * (1 : α))
-  let t2319 := ((t1997 + t2313) * (-((1 : α) / (4 : α))))
-  let t2320 := ((t1998 + t2314) * (-((1 : α) / (4 : α))))
-  let t2321 := ((t1999 + t2315) * (-((1 : α) / (4 : α))))
-  let t2322 := (V3.length tmin tmax sqrt ⟨t2321, t2320, t2319⟩)
-  let t2323 := (sin t2322)
-  let t2324 := (sabs t2322)
-  let t2325 := (tmax * t2324)
-  let t2326 := (sabs t2323)
-  let t2327 := (cos t2322)
-  let t2328 := (t2319 * (1 : α))
-  let t2329 := (t2320 * (1 : α))
-  let t2330 := (t2321 * (1 : α))
-  let t2340 := (q1.v.z * t2327)
-  let t2341 := (q1.v.y * t2327)
-  let t2342 := (q1.v.x * t2327)
-  let t2349 := (((q1.r * t2328) + t2340) + ((q1.v.x * t2329) - (q1.v.y * t2330)))
-  let t2350 := (((q1.r * t2329) + t2341) + ((q1.v.z * t2330) - (q1.v.x * t2328)))
-  let t2351 := (((q1.r * t2330) + t2342) + ((q1.v.y * t2328) - (q1.v.z * t2329)))
-  let t2357 := (q1.r * t2327)
-  let t2358 := (t2357 - (((q1.v.x * t2330) + (q1.v.y * t2329)) + (q1.v.z * t2328)))
-  let t2366 := (sqrt ((t2358 * t2358) + (((t2351 * t2351) + (t2350 * t2350)) + (t2349 * t2349))))
-  let t2371 := (t2323 / t2322)
-  let t2372 := (t2319 * t2371)
-  let t2373 := (t2320 * t2371)
-  let t2374 := (t2321 * t2371)
-  let t2390 := (((q1.r * t2372) + t2340) + ((q1.v.x * t2373) - (q1.v.y * t2374)))
-  let t2391 := (((q1.r * t2373) + t2341) + ((q1.v.z * t2374) - (q1.v.x * t2372)))
-  let t2392 := (((q1.r * t2374) + t2342) + ((q1.v.y * t2372) - (q1.v.z * t2373)))
-  let t2398 := (t2357 - (((q1.v.x * t2374) + (q1.v.y * t2373)) + (q1.v.z * t2372)))
-  let t2406 := (sqrt ((t2398 * t2398) + (((t2392 * t2392) + (t2391 * t2391)) + (t2390 * t2390))))
-  let t2407 := (t2398 / t2406)
-  let t2408 := (t2392 / t2406)
-  let t2409 := (t2391 / t2406)
-  let t2410 := (t2390 / t2406)
-  let t2414 := ((t2112 + t2313) * (-((1 : α) / (4 : α))))
-  let t2415 := ((t2113 + t2314) * (-((1 : α) / (4 : α))))
-  let t2416 := ((t2114 + t2315) * (-((1 : α) / (4 : α))))
-  let t2417 := (V3.length tmin tmax sqrt ⟨t2416, t2415, t2414⟩)
-  let t2418 := (sin t2417)
-  let t2419 := (sabs t2417)
-  let t2420 := (tmax * t2419)
-  let t2421 := (sabs t2418)
-  let t2422 := (cos t2417)
-  let t2423 := (t2414 * (1 : α))
-  let t2424 := (t2415 * (1 : α))
-  let t2425 := (t2416 * (1 : α))
-  let t2435 := (q1.v.z * t2422)
-  let t2436 := (q1.v.y * t2422)
-  let t2437 := (q1.v.x * t2422)
-  let t2444 := (((q1.r * t2423) + t2435) + ((q1.v.x * t2424) - (q1.v.y * t2425)))
-  let t2445 := (((q1.r * t2424) + t2436) + ((q1.v.z * t2425) - (q1.v.x * t2423)))
-  let t2446 := (((q1.r * t2425) + t2437) + ((q1.v.y * t2423) - (q1.v.z * t2424)))
-  let t2452 := (q1.r * t2422)
-  let t2453 := (t2452 - (((q1.v.x * t2425) + (q1.v.y * t2424)) + (q1.v.z * t2423)))
-  let t2461 := (sqrt ((t2453 * t2453) + (((t2446 * t2446) + (t2445 * t2445)) + (t2444 * t2444))))
-  let t2466 := (t2418 / t2417)
-  let t2467 := (t2414 * t2466)
-  let t2468 := (t2415 * t2466)
-  let t2469 := (t2416 * t2466)
-  let t2485 := (((q1.r * t2467) + t2435) + ((q1.v.x * t2468) - (q1.v.y * t2469)))
-  let t2486 := (((q1.r * t2468) + t2436) + ((q1.v.z * t2469) - (q1.v.x * t2467)))
-  let t2487 := (((q1.r * t2469) + t2437) + ((q1.v.y * t2467) - (q1.v.z * t2468)))
-  let t2493 := (t2452 - (((q1.v.x * t2469) + (q1.v.y * t2468)) + (q1.v.z * t2467)))
-  let t2501 := (sqrt ((t2493 * t2493) + (((t2487 * t2487) + (t2486 * t2486)) + (t2485 * t2485))))
-  let t2502 := (t2493 / t2501)
-  let t2503 := (t2487 / t2501)
-  let t2504 := (t2486 / t2501)
-  let t2505 := (t2485 / t2501)
-  let t2509 := ((t2211 + t2313) * (-((1 : α) / (4 : α))))
-  let t2510 := ((t2212 + t2314) * (-((1 : α) / (4 : α))))
-  let t2511 := ((t2213 + t2315) * (-((1 : α) / (4 : α))))
-  let t2512 := (V3.length tmin tmax sqrt ⟨t2511, t2510, t2509⟩)
-  let t2513 := (sin t2512)
-  let t2514 := (sabs t2512)
-  let t2515 := (tmax * t2514)
-  let t2516 := (sabs t2513)
-  let t2517 := (cos t2512)
-  let t2518 := (t2509 * (1 : α))
-  let t2519 := (t2510 * (1 : α))
-  let t2520 := (t2511 * (1 : α))
-  let t2530 := (q1.v.z * t2517)
-  let t2531 := (q1.v.y * t2517)
-  let t2532 := (q1.v.x * t2517)
-  let t2539 := (((q1.r * t2518) + t2530) + ((q1.v.x * t2519) - (q1.v.y * t2520)))
-  let t2540 := (((q1.r * t2519) + t2531) + ((q1.v.z * t2520) - (q1.v.x * t2518)))
-  let t2541 := (((q1.r * t2520) + t2532) + ((q1.v.y * t2518) - (q1.v.z * t2519)))
-  let t2547 := (q1.r * t2517)
-  let t2548 := (t2547 - (((q1.v.x * t2520) + (q1.v.y * t2519)) + (q1.v.z * t2518)))
-  let t2556 := (sqrt ((t2548 * t2548) + (((t2541 * t2541) + (t2540 * t2540)) + (t2539 * t2539))))
-  let t2557 := (t2548 / t2556)
-  let t2558 := (t2541 / t2556)
-  let t2559 := (t2540 / t2556)
-  let t2560 := (t2539 / t2556)
-  let t2561 := (t2513 / t2512)
-  let t2562 := (t2509 * t2561)
-  let t2563 := (t2510 * t2561)
-  let t2564 := (t2511 * t2561)
-  let t2580 := (((q1.r * t2562) + t2530) + ((q1.v.x * t2563) - (q1.v.y * t2564)))
-  let t2581 := (((q1.r * t2563) + t2531) + ((q1.v.z * t2564) - (q1.v.x * t2562)))
-  let t2582 := (((q1.r * t2564) + t2532) + ((q1.v.y * t2562) - (q1.v.z * t2563)))
-  let t2588 := (t2547 - (((q1.v.x * t2564) + (q1.v.y * t2563)) + (q1.v.z * t2562)))
-  let t2596 := (sqrt ((t2588 * t2588) + (((t2582 * t2582) + (t2581 * t2581)) + (t2580 * t2580))))
-  let t2597 := (t2588 / t2596)
-  let t2598 := (t2582 / t2596)
-  let t2599 := (t2581 / t2596)
-  let t2600 := (t2580 / t2596)
-  let t2601 := (t2008 / t2309)
-  let t2602 := (t1969 * t2601)
-  let t2603 := (t1970 * t2601)
-  let t2604 := (t1971 * t2601)
-  let t2608 := ((t1997 + t2602) * (-((1 : α) / (4 : α))))
-  let t2609 := ((t1998 + t2603) * (-((1 : α) / (4 : α))))
-  let t2610 := ((t1999 + t2604) * (-((1 : α) / (4 : α))))
-  let t2611 := (V3.length tmin tmax sqrt ⟨t2610, t2609, t2608⟩)
-  let t2612 := (sin t2611)
-  let t2613 := (sabs t2611)
-  let t2614 := (tmax * t2613)
-  let t2615 := (sabs t2612)
-  let t2616 := (cos t2611)
-  let t2617 := (t2608 * (1 : α))
-  let t2618 := (t2609 * (1 : α))
-  let t2619 := (t2610 * (1 : α))
-  let t2629 := (q1.v.z * t2616)
-  let t2630 := (q1.v.y * t2616)
-  let t2631 := (q1.v.x * t2616)
-  let t2638 := (((q1.r * t2617) + t2629) + ((q1.v.x * t2618) - (q1.v.y * t2619)))
-  let t2639 := (((q1.r * t2618) + t2630) + ((q1.v.z * t2619) - (q1.v.x * t2617)))
-  let t2640 := (((q1.r * t2619) + t2631) + ((q1.v.y * t2617) - (q1.v.z * t2618)))
-  let t2646 := (q1.r * t2616)
-  let t2647 := (t2646 - (((q1.v.x * t2619) + (q1.v.y * t2618)) + (q1.v.z * t2617)))
-  let t2655 := (sqrt ((t2647 * t2647) + (((t2640 * t2640) + (t2639 * t2639)) + (t2638 * t2638))))
-  let t2656 := (t2647 / t2655)
-  let t2657 := (t2640 / t2655)
-  let t2658 := (t2639 / t2655)
-  let t2659 := (t2638 / t2655)
-  let t2660 := (t2612 / t2611)
-  let t2661 := (t2608 * t2660)
-  let t2662 := (t2609 * t2660)
-  let t2663 := (t2610 * t2660)
-  let t2679 := (((q1.r * t2661) + t2629) + ((q1.v.x * t2662) - (q1.v.y * t2663)))
-  let t2680 := (((q1.r * t2662) + t2630) + ((q1.v.z * t2663) - (q1.v.x * t2661)))
-  let t2681 := (((q1.r * t2663) + t2631) + ((q1.v.y * t2661) - (q1.v.z * t2662)))
-  let t2687 := (t2646 - (((q1.v.x * t2663) + (q1.v.y * t2662)) + (q1.v.z * t2661)))
-  let t2695 := (sqrt ((t2687 * t2687) + (((t2681 * t2681) + (t2680 * t2680)) + (t2679 * t2679))))
-  let t2696 := (t2687 / t2695)
-  let t2697 := (t2681 / t2695)
-  let t2698 := (t2680 / t2695)
-  let t2699 := (t2679 / t2695)
-  let t2703 := ((t2112 + t2602) * (-((1 : α) / (4 : α))))
-  let t2704 := ((t2113 + t2603) * (-((1 : α) / (4 : α))))
-  let t2705 := ((t2114 + t2604) * (-((1 : α) / (4 : α))))
-  let t2706 := (V3.length tmin tmax sqrt ⟨t2705, t2704, t2703⟩)
-  let t2707 := (sin t2706)
-  let t2708 := (sabs t2706)
-  let t2709 := (tmax * t2708)
-  let t2710 := (sabs t2707)
-  let t2711 := (cos t2706)
-  let t2712 := (t2703 * (1 : α))
-  let t2713 := (t2704 * (1 : α))
-  let t2714 := (t2705 * (1 : α))
-  let t2724 := (q1.v.z * t2711)
-  let t2725 := (q1.v.y * t2711)
-  let t2726 := (q1.v.x * t2711)
-  let t2733 := (((q1.r * t2712) + t2724) + ((q1.v.x * t2713) - (q1.v.y * t2714)))
-  let t2734 := (((q1.r * t2713) + t2725) + ((q1.v.z * t2714) - (q1.v.x * t2712)))
-  let t2735 := (((q1.r * t2714) + t2726) + ((q1.v.y * t2712) - (q1.v.z * t2713)))
-  let t2741 := (q1.r * t2711)
-  let t2742 := (t2741 - (((q1.v.x * t2714) + (q1.v.y * t2713)) + (q1.v.z * t2712)))
-  let t2750 := (sqrt ((t2742 * t2742) + (((t2735 * t2735) + (t2734 * t2734)) + (t2733 * t2733))))
-  let t2751 := (t2742 / t2750)
-  let t2752 := (t2735 / t2750)
-  let t2753 := (t2734 / t2750)
-  let t2754 := (t2733 / t2750)
-  let t2755 := (t2707 / t2706)
-  let t2756 := (t2703 * t2755)
-  let t2757 := (t2704 * t2755)
-  let t2758 := (t2705 * t2755)
-  let t2774 := (((q1.r * t2756) + t2724) + ((q1.v.x * t2757) - (q1.v.y * t2758)))
-  let t2775 := (((q1.r * t2757) + t2725) + ((q1.v.z * t2758) - (q1.v.x * t2756)))
-  let t2776 := (((q1.r * t2758) + t2726) + ((q1.v.y * t2756) - (q1.v.z * t2757)))
-  let t2782 := (t2741 - (((q1.v.x * t2758) + (q1.v.y * t2757)) + (q1.v.z * t2756)))
-  let t2790 := (sqrt ((t2782 * t2782) + (((t2776 * t2776) + (t2775 * t2775)) + (t2774 * t2774))))
-  let t2791 := (t2782 / t2790)
-  let t2792 := (t2776 / t2790)
-  let t2793 := (t2775 / t2790)
-  let t2794 := (t2774 / t2790)
-  let t2798 := ((t2211 + t2602) * (-((1 : α) / (4 : α))))
-  let t2799 := ((t2212 + t2603) * (-((1 : α) / (4 : α))))
-  let t2800 := ((t2213 + t2604) * (-((1 : α) / (4 : α))))
-  let t2801 := (V3.length tmin tmax sqrt ⟨t2800, t2799, t2798⟩)
-  let t2802 := (sin t2801)
-  let t2803 := (sabs t2801)
-  let t2804 := (tmax * t2803)
-  let t2805 := (sabs t2802)
-  let t2806 := (cos t2801)
-  let t2807 := (t2798 * (1 : α))
-  let t2808 := (t2799 * (1 : α))
-  let t2809 := (t2800 * (1 : α))
-  let t2819 := (q1.v.z * t2806)
-  let t2820 := (q1.v.y * t2806)
-  let t2821 := (q1.v.x * t2806)
-  let t2828 := (((q1.r * t2807) + t2819) + ((q1.v.x * t2808) - (q1.v.y * t2809)))
-  let t2829 := (((q1.r * t2808) + t2820) + ((q1.v.z * t2809) - (q1.v.x * t2807)))
-  let t2830 := (((q1.r * t2809) + t2821) + ((q1.v.y * t2807) - (q1.v.z * t2808)))
-  let t2836 := (q1.r * t2806)
-  let t2837 := (t2836 - (((q1.v.x * t2809) + (q1.v.y * t2808)) + (q1.v.z * t2807)))
-  let t2845 := (sqrt ((t2837 * t2837) + (((t2830 * t2830) + (t2829 * t2829)) + (t2828 * t2828))))
-  let t2846 := (t2837 / t2845)
-  let t2847 := (t2830 / t2845)
-  let t2848 := (t2829 / t2845)
-  let t2849 := (t2828 / t2845)
-  let t2850 := (t2802 / t2801)
-  let t2851 := (t2798 * t2850)
-  let t2852 := (t2799 * t2850)
-  let t2853 := (t2800 * t2850)
-  let t2869 := (((q1.r * t2851) + t2819) + ((q1.v.x * t2852) - (q1.v.y * t2853)))
-  let t2870 := (((q1.r * t2852) + t2820) + ((q1.v.z * t2853) - (q1.v.x * t2851)))
-  let t2871 := (((q1.r * t2853) + t2821) + ((q1.v.y * t2851) - (q1.v.z * t2852)))
-  let t2877 := (t2836 - (((q1.v.x * t2853) + (q1.v.y * t2852)) + (q1.v.z * t2851)))
-  let t2885 := (sqrt ((t2877 * t2877) + (((t2871 * t2871) + (t2870 * t2870)) + (t2869 * t2869))))
-  let t2886 := (t2877 / t2885)
-  let t2887 := (t2871 / t2885)
-  let t2888 := (t2870 / t2885)
-  let t2889 := (t2869 / t2885)
-  if t2008 = (0 : α) then
-    if t2010 = (0 : α) then
-      if t2021 < (1 : α) then
-        if t2022 ≤ t2023 then
-          if t2063 = (0 : α) then
+  let t1045 := ((q1.r * q1.r) + (((q1.v.x * q1.v.x) + (q1.v.y * q1.v.y)) + (q1.v.z * q1.v.z)))
+  let t1049 := ((-q1.v.z) / t1045)
+  let t1050 := ((-q1.v.y) / t1045)
+  let t1051 := ((-q1.v.x) / t1045)
+  let t1052 := (q1.r / t1045)
+  let t1071 := (((t1052 * q2.v.z) + (t1049 * q2.r)) + ((t1051 * q2.v.y) - (t1050 * q2.v.x)))
+  let t1072 := (((t1052 * q2.v.y) + (t1050 * q2.r)) + ((t1049 * q2.v.x) - (t1051 * q2.v.z)))
+  let t1073 := (((t1052 * q2.v.x) + (t1051 * q2.r)) + ((t1050 * q2.v.z) - (t1049 * q2.v.y)))
+  let t1099 := (((t1052 * q0.v.z) + (t1049 * q0.r)) + ((t1051 * q0.v.y) - (t1050 * q0.v.x)))
+  let t1100 := (((t1052 * q0.v.y) + (t1050 * q0.r)) + ((t1049 * q0.v.x) - (t1051 * q0.v.z)))
+  let t1101 := (((t1052 * q0.v.x) + (t1051 * q0.r)) + ((t1050 * q0.v.z) - (t1049 * q0.v.y)))
+  let t1110 := (acos (smin ((t1052 * q2.r) - (((t1051 * q2.v.x) + (t1050 * q2.v.y)) + (t1049 * q2.v.z))) (1 : α)))
+  let t1112 := (acos (smin ((t1052 * q0.r) - (((t1051 * q0.v.x) + (t1050 * q0.v.y)) + (t1049 * q0.v.z))) (1 : α)))
+  let t1118 := ((t1099 + t1071) * (-((1 : α) / (4 : α))))
+  let t1119 := ((t1100 + t1072) * (-((1 : α) / (4 : α))))
+  let t1120 := ((t1101 + t1073) * (-((1 : α) / (4 : α))))
+  let t1122 := (V3.length tmin tmax sqrt ⟨t1120, t1119, t1118⟩)
+  let t1123 := (sin t1122)
+  let t1124 := (sabs t1122)
+  let t1125 := (tmax * t1124)
+  let t1126 := (sabs t1123)
+  let t1127 := (cos t1122)
+  let t1128 := (t1118 * (1 : α))
+  let t1129 := (t1119 * (1 : α))
+  let t1130 := (t1120 * (1 : α))
+  let t1140 := (q1.v.z * t1127)
+  let t1141 := (q1.v.y * t1127)
+  let t1142 := (q1.v.x * t1127)
+  let t1149 := (((q1.r * t1128) + t1140) + ((q1.v.x * t1129) - (q1.v.y * t1130)))
+  let t1150 := (((q1.r * t1129) + t1141) + ((q1.v.z * t1130) - (q1.v.x * t1128)))
+  let t1151 := (((q1.r * t1130) + t1142) + ((q1.v.y * t1128) - (q1.v.z * t1129)))
+  let t1157 := (q1.r * t1127)
+  let t1158 := (t1157 - (((q1.v.x * t1130) + (q1.v.y * t1129)) + (q1.v.z * t1128)))
+  let t1166 := (sqrt ((t1158 * t1158) + (((t1151 * t1151) + (t1150 * t1150)) + (t1149 * t1149))))
+  let t1171 := (t1123 / t1122)
+  let t1172 := (t1118 * t1171)
+  let t1173 := (t1119 * t1171)
+  let t1174 := (t1120 * t1171)
+  let t1190 := (((q1.r * t1172) + t1140) + ((q1.v.x * t1173) - (q1.v.y * t1174)))
+  let t1191 := (((q1.r * t1173) + t1141) + ((q1.v.z * t1174) - (q1.v.x * t1172)))
+  let t1192 := (((q1.r * t1174) + t1142) + ((q1.v.y * t1172) - (q1.v.z * t1173)))
+  let t1198 := (t1157 - (((q1.v.x * t1174) + (q1.v.y * t1173)) + (q1.v.z * t1172)))
+  let t1206 := (sqrt ((t1198 * t1198) + (((t1192 * t1192) + (t1191 * t1191)) + (t1190 * t1190))))
+  let t1207 := (t1198 / t1206)
+  let t1208 := (t1192 / t1206)
+  let t1209 := (t1191 / t1206)
+  let t1210 := (t1190 / t1206)
+  let t1211 := (sin t1112)
+  let t1212 := (sabs t1211)
+  let t1213 := (tmax * t1212)
+  let t1214 := (sabs t1112)
+  let t1215 := (t1099 * (1 : α))
+  let t1216 := (t1100 * (1 : α))
+  let t1217 := (t1101 * (1 : α))
+  let t1221 := ((t1215 + t1071) * (-((1 : α) / (4 : α))))
+  let t1222 := ((t1216 + t1072) * (-((1 : α) / (4 : α))))
+  let t1223 := ((t1217 + t1073) * (-((1 : α) / (4 : α))))
+  let t1224 := (V3.length tmin tmax sqrt ⟨t1223, t1222, t1221⟩)
+  let t1225 := (sin t1224)
+  let t1226 := (sabs t1224)
+  let t1227 := (tmax * t1226)
+  let t1228 := (sabs t1225)
+  let t1229 := (cos t1224)
+  let t1230 := (t1221 * (1 : α))
+  let t1231 := (t1222 * (1 : α))
+  let t1232 := (t1223 * (1 : α))
+  let t1242 := (q1.v.z * t1229)
+  let t1243 := (q1.v.y * t1229)
+  let t1244 := (q1.v.x * t1229)
+  let t1251 := (((q1.r * t1230) + t1242) + ((q1.v.x * t1231) - (q1.v.y * t1232)))
+  let t1252 := (((q1.r * t1231) + t1243) + ((q1.v.z * t1232) - (q1.v.x * t1230)))
+  let t1253 := (((q1.r * t1232) + t1244) + ((q1.v.y * t1230) - (q1.v.z * t1231)))
+  let t1259 := (q1.r * t1229)
+  let t1260 := (t1259 - (((q1.v.x * t1232) + (q1.v.y * t1231)) + (q1.v.z * t1230)))
+  let t1268 := (sqrt ((t1260 * t1260) + (((t1253 * t1253) + (t1252 * t1252)) + (t1251 * t1251))))
+  let t1273 := (t1225 / t1224)
+  let t1274 := (t1221 * t1273)
+  let t1275 := (t1222 * t1273)
+  let t1276 := (t1223 * t1273)
+  let t1292 := (((q1.r * t1274) + t1242) + ((q1.v.x * t1275) - (q1.v.y * t1276)))
+  let t1293 := (((q1.r * t1275) + t1243) + ((q1.v.z * t1276) - (q1.v.x * t1274)))
+  let t1294 := (((q1.r * t1276) + t1244) + ((q1.v.y * t1274) - (q1.v.z * t1275)))
+  let t1300 := (t1259 - (((q1.v.x * t1276) + (q1.v.y * t1275)) + (q1.v.z * t1274)))
+  let t1308 := (sqrt ((t1300 * t1300) + (((t1294 * t1294) + (t1293 * t1293)) + (t1292 * t1292))))
+  let t1309 := (t1300 / t1308)
+  let t1310 := (t1294 / t1308)
+  let t1311 := (t1293 / t1308)
+  let t1312 := (t1292 / t1308)
+  let t1313 := (t1112 / t1211)
+  let t1314 := (t1099 * t1313)
+  let t1315 := (t1100 * t1313)
+  let t1316 := (t1101 * t1313)
+  let t1320 := ((t1314 + t1071) * (-((1 : α) / (4 : α))))
+  let t1321 := ((t1315 + t1072) * (-((1 : α) / (4 : α))))
+  let t1322 := ((t1316 + t1073) * (-((1 : α) / (4 : α))))
+  let t1323 := (V3.length tmin tmax sqrt ⟨t1322, t1321, t1320⟩)
+  let t1324 := (sin t1323)
+  let t1325 := (sabs t1323)
+  let t1326 := (tmax * t1325)
+  let t1327 := (sabs t1324)
+  let t1328 := (cos t1323)
+  let t1329 := (t1320 * (1 : α))
+  let t1330 := (t1321 * (1 : α))
+  let t1331 := (t1322 * (1 : α))
+  let t1341 := (q1.v.z * t1328)
+  let t1342 := (q1.v.y * t1328)
+  let t1343 := (q1.v.x * t1328)
+  let t1350 := (((q1.r * t1329) + t1341) + ((q1.v.x * t1330) - (q1.v.y * t1331)))
+  let t1351 := (((q1.r * t1330) + t1342) + ((q1.v.z * t1331) - (q1.v.x * t1329)))
+  let t1352 := (((q1.r * t1331) + t1343) + ((q1.v.y * t1329) - (q1.v.z * t1330)))
+  let t1358 := (q1.r * t1328)
+  let t1359 := (t1358 - (((q1.v.x * t1331) + (q1.v.y * t1330)) + (q1.v.z * t1329)))
+  let t1367 := (sqrt ((t1359 * t1359) + (((t1352 * t1352) + (t1351 * t1351)) + (t1350 * t1350))))
+  let t1368 := (t1359 / t1367)
+  let t1369 := (t1352 / t1367)
+  let t1370 := (t1351 / t1367)
+  let t1371 := (t1350 / t1367)
+  let t1372 := (t1324 / t1323)
+  let t1373 := (t1320 * t1372)
+  let t1374 := (t1321 * t1372)
+  let t1375 := (t1322 * t1372)
+  let t1391 := (((q1.r * t1373) + t1341) + ((q1.v.x * t1374) - (q1.v.y * t1375)))
+  let t1392 := (((q1.r * t1374) + t1342) + ((q1.v.z * t1375) - (q1.v.x * t1373)))
+  let t1393 := (((q1.r * t1375) + t1343) + ((q1.v.y * t1373) - (q1.v.z * t1374)))
+  let t1399 := (t1358 - (((q1.v.x * t1375) + (q1.v.y * t1374)) + (q1.v.z * t1373)))
+  let t1407 := (sqrt ((t1399 * t1399) + (((t1393 * t1393) + (t1392 * t1392)) + (t1391 * t1391))))
+  let t1408 := (t1399 / t1407)
+  let t1409 := (t1393 / t1407)
+  let t1410 := (t1392 / t1407)
+  let t1411 := (t1391 / t1407)
+  let t1412 := (sin t1110)
+  let t1413 := (sabs t1412)
+  let t1414 := (tmax * t1413)
+  let t1415 := (sabs t1110)
+  let t1416 := (t1071 * (1 : α))
+  let t1417 := (t1072 * (1 : α))
+  let t1418 := (t1073 * (1 : α))
+  let t1422 := ((t1099 + t1416) * (-((1 : α) / (4 : α))))
+  let t1423 := ((t1100 + t1417) * (-((1 : α) / (4 : α))))
+  let t1424 := ((t1101 + t1418) * (-((1 : α) / (4 : α))))
+  let t1425 := (V3.length tmin tmax sqrt ⟨t1424, t1423, t1422⟩)
+  let t1426 := (sin t1425)
+  let t1427 := (sabs t1425)
+  let t1428 := (tmax * t1427)
+  let t1429 := (sabs t1426)
+  let t1430 := (cos t1425)
+  let t1431 := (t1422 * (1 : α))
+  let t1432 := (t1423 * (1 : α))
+  let t1433 := (t1424 * (1 : α))
+  let t1443 := (q1.v.z * t1430)
+  let t1444 := (q1.v.y * t1430)
+  let t1445 := (q1.v.x * t1430)
+  let t1452 := (((q1.r * t1431) + t1443) + ((q1.v.x * t1432) - (q1.v.y * t1433)))
+  let t1453 := (((q1.r * t1432) + t1444) + ((q1.v.z * t1433) - (q1.v.x * t1431)))
+  let t1454 := (((q1.r * t1433) + t1445) + ((q1.v.y * t1431) - (q1.v.z * t1432)))
+  let t1460 := (q1.r * t1430)
+  let t1461 := (t1460 - (((q1.v.x * t1433) + (q1.v.y * t1432)) + (q1.v.z * t1431)))
+  let t1469 := (sqrt ((t1461 * t1461) + (((t1454 * t1454) + (t1453 * t1453)) + (t1452 * t1452))))
+  let t1474 := (t1426 / t1425)
+  let t1475 := (t1422 * t1474)
+  let t1476 := (t1423 * t1474)
+  let t1477 := (t1424 * t1474)
+  let t1493 := (((q1.r * t1475) + t1443) + ((q1.v.x * t1476) - (q1.v.y * t1477)))
+  let t1494 := (((q1.r * t1476) + t1444) + ((q1.v.z * t1477) - (q1.v.x * t1475)))
+  let t1495 := (((q1.r * t1477) + t1445) + ((q1.v.y * t1475) - (q1.v.z * t1476)))
+  let t1501 := (t1460 - (((q1.v.x * t1477) + (q1.v.y * t1476)) + (q1.v.z * t1475)))
+  let t1509 := (sqrt ((t1501 * t1501) + (((t1495 * t1495) + (t1494 * t1494)) + (t1493 * t1493))))
+  let t1510 := (t1501 / t1509)
+  let t1511 := (t1495 / t1509)
+  let t1512 := (t1494 / t1509)
+  let t1513 := (t1493 / t1509)
+  let t1517 := ((t1215 + t1416) * (-((1 : α) / (4 : α))))
+  let t1518 := ((t1216 + t1417) * (-((1 : α) / (4 : α))))
+  let t1519 := ((t1217 + t1418) * (-((1 : α) / (4 : α))))
+  let t1520 := (V3.length tmin tmax sqrt ⟨t1519, t1518, t1517⟩)
+  let t1521 := (sin t1520)
+  let t1522 := (sabs t1520)
+  let t1523 := (tmax * t1522)
+  let t1524 := (sabs t1521)
+  let t1525 := (cos t1520)
+  let t1526 := (t1517 * (1 : α))
+  let t1527 := (t1518 * (1 : α))
+  let t1528 := (t1519 * (1 : α))
+  let t1538 := (q1.v.z * t1525)
+  let t1539 := (q1.v.y * t1525)
+  let t1540 := (q1.v.x * t1525)
+  let t1547 := (((q1.r * t1526) + t1538) + ((q1.v.x * t1527) - (q1.v.y * t1528)))
+  let t1548 := (((q1.r * t1527) + t1539) + ((q1.v.z * t1528) - (q1.v.x * t1526)))
+  let t1549 := (((q1.r * t1528) + t1540) + ((q1.v.y * t1526) - (q1.v.z * t1527)))
+  let t1555 := (q1.r * t1525)
+  let t1556 := (t1555 - (((q1.v.x * t1528) + (q1.v.y * t1527)) + (q1.v.z * t1526)))
+  let t1564 := (sqrt ((t1556 * t1556) + (((t1549 * t1549) + (t1548 * t1548)) + (t1547 * t1547))))
+  let t1569 := (t1521 / t1520)
+  let t1570 := (t1517 * t1569)
+  let t1571 := (t1518 * t1569)
+  let t1572 := (t1519 * t1569)
+  let t1588 := (((q1.r * t1570) + t1538) + ((q1.v.x * t1571) - (q1.v.y * t1572)))
+  let t1589 := (((q1.r * t1571) + t1539) + ((q1.v.z * t1572) - (q1.v.x * t1570)))
+  let t1590 := (((q1.r * t1572) + t1540) + ((q1.v.y * t1570) - (q1.v.z * t1571)))
+  let t1596 := (t1555 - (((q1.v.x * t1572) + (q1.v.y * t1571)) + (q1.v.z * t1570)))
+  let t1604 := (sqrt ((t1596 * t1596) + (((t1590 * t1590) + (t1589 * t1589)) + (t1588 * t1588))))
+  let t1605 := (t1596 / t1604)
+  let t1606 := (t1590 / t1604)
+  let t1607 := (t1589 / t1604)
+  let t1608 := (t1588 / t1604)
+  let t1612 := ((t1314 + t1416) * (-((1 : α) / (4 : α))))
+  let t1613 := ((t1315 + t1417) * (-((1 : α) / (4 : α))))
+  let t1614 := ((t1316 + t1418) * (-((1 : α) / (4 : α))))
+  let t1615 := (V3.length tmin tmax sqrt ⟨t1614, t1613, t1612⟩)
+  let t1616 := (sin t1615)
+  let t1617 := (sabs t1615)
+  let t1618 := (tmax * t1617)
+  let t1619 := (sabs t1616)
+  let t1620 := (cos t1615)
+  let t1621 := (t1612 * (1 : α))
+  let t1622 := (t1613 * (1 : α))
+  let t1623 := (t1614 * (1 : α))
+  let t1633 := (q1.v.z * t1620)
+  let t1634 := (q1.v.y * t1620)
+  let t1635 := (q1.v.x * t1620)
+  let t1642 := (((q1.r * t1621) + t1633) + ((q1.v.x * t1622) - (q1.v.y * t1623)))
+  let t1643 := (((q1.r * t1622) + t1634) + ((q1.v.z * t1623) - (q1.v.x * t1621)))
+  let t1644 := (((q1.r * t1623) + t1635) + ((q1.v.y * t1621) - (q1.v.z * t1622)))
+  let t1650 := (q1.r * t1620)
+  let t1651 := (t1650 - (((q1.v.x * t1623) + (q1.v.y * t1622)) + (q1.v.z * t1621)))
+  let t1659 := (sqrt ((t1651 * t1651) + (((t1644 * t1644) + (t1643 * t1643)) + (t1642 * t1642))))
+  let t1660 := (t1651 / t1659)
+  let t1661 := (t1644 / t1659)
+  let t1662 := (t1643 / t1659)
+  let t1663 := (t1642 / t1659)
+  let t1664 := (t1616 / t1615)
+  let t1665 := (t1612 * t1664)
+  let t1666 := (t1613 * t1664)
+  let t1667 := (t1614 * t1664)
+  let t1683 := (((q1.r * t1665) + t1633) + ((q1.v.x * t1666) - (q1.v.y * t1667)))
+  let t1684 := (((q1.r * t1666) + t1634) + ((q1.v.z * t1667) - (q1.v.x * t1665)))
+  let t1685 := (((q1.r * t1667) + t1635) + ((q1.v.y * t1665) - (q1.v.z * t1666)))
+  let t1691 := (t1650 - (((q1.v.x * t1667) + (q1.v.y * t1666)) + (q1.v.z * t1665)))
+  let t1699 := (sqrt ((t1691 * t1691) + (((t1685 * t1685) + (t1684 * t1684)) + (t1683 * t1683))))
+  let t1700 := (t1691 / t1699)
+  let t1701 := (t1685 / t1699)
+  let t1702 := (t1684 / t1699)
+  let t1703 := (t1683 / t1699)
+  let t1704 := (t1110 / t1412)
+  let t1705 := (t1071 * t1704)
+  let t1706 := (t1072 * t1704)
+  let t1707 := (t1073 * t1704)
+  let t1711 := ((t1099 + t1705) * (-((1 : α) / (4 : α))))
+  let t1712 := ((t1100 + t1706) * (-((1 : α) / (4 : α))))
+  let t1713 := ((t1101 + t1707) * (-((1 : α) / (4 : α))))
+  let t1714 := (V3.length tmin tmax sqrt ⟨t1713, t1712, t1711⟩)
+  let t1715 := (sin t1714)
+  let t1716 := (sabs t1714)
+  let t1717 := (tmax * t1716)
+  let t1718 := (sabs t1715)
+  let t1719 := (cos t1714)
+  let t1720 := (t1711 * (1 : α))
+  let t1721 := (t1712 * (1 : α))
+  let t1722 := (t1713 * (1 : α))
+  let t1732 := (q1.v.z * t1719)
+  let t1733 := (q1.v.y * t1719)
+  let t1734 := (q1.v.x * t1719)
+  let t1741 := (((q1.r * t1720) + t1732) + ((q1.v.x * t1721) - (q1.v.y * t1722)))
+  let t1742 := (((q1.r * t1721) + t1733) + ((q1.v.z * t1722) - (q1.v.x * t1720)))
+  let t1743 := (((q1.r * t1722) + t1734) + ((q1.v.y * t1720) - (q1.v.z * t1721)))
+  let t1749 := (q1.r * t1719)
+  let t1750 := (t1749 - (((q1.v.x * t1722) + (q1.v.y * t1721)) + (q1.v.z * t1720)))
+  let t1758 := (sqrt ((t1750 * t1750) + (((t1743 * t1743) + (t1742 * t1742)) + (t1741 * t1741))))
+  let t1759 := (t1750 / t1758)
+  let t1760 := (t1743 / t1758)
+  let t1761 := (t1742 / t1758)
+  let t1762 := (t1741 / t1758)
+  let t1763 := (t1715 / t1714)
+  let t1764 := (t1711 * t1763)
+  let t1765 := (t1712 * t1763)
+  let t1766 := (t1713 * t1763)
+  let t1782 := (((q1.r * t1764) + t1732) + ((q1.v.x * t1765) - (q1.v.y * t1766)))
+  let t1783 := (((q1.r * t1765) + t1733) + ((q1.v.z * t1766) - (q1.v.x * t1764)))
+  let t1784 := (((q1.r * t1766) + t1734) + ((q1.v.y * t1764) - (q1.v.z * t1765)))
+  let t1790 := (t1749 - (((q1.v.x * t1766) + (q1.v.y * t1765)) + (q1.v.z * t1764)))
+  let t1798 := (sqrt ((t1790 * t1790) + (((t1784 * t1784) + (t1783 * t1783)) + (t1782 * t1782))))
+  let t1799 := (t1790 / t1798)
+  let t1800 := (t1784 / t1798)
+  let t1801 := (t1783 / t1798)
+  let t1802 := (t1782 / t1798)
+  let t1806 := ((t1215 + t1705) * (-((1 : α) / (4 : α))))
+  let t1807 := ((t1216 + t1706) * (-((1 : α) / (4 : α))))
+  let t1808 := ((t1217 + t1707) * (-((1 : α) / (4 : α))))
+  let t1809 := (V3.length tmin tmax sqrt ⟨t1808, t1807, t1806⟩)
+  let t1810 := (sin t1809)
+  let t1811 := (sabs t1809)
+  let t1812 := (tmax * t1811)
+  let t1813 := (sabs t1810)
+  let t1814 := (cos t1809)
+  let t1815 := (t1806 * (1 : α))
+  let t1816 := (t1807 * (1 : α))
+  let t1817 := (t1808 * (1 : α))
+  let t1827 := (q1.v.z * t1814)
+  let t1828 := (q1.v.y * t1814)
+  let t1829 := (q1.v.x * t1814)
+  let t1836 := (((q1.r * t1815) + t1827) + ((q1.v.x * t1816) - (q1.v.y * t1817)))
+  let t1837 := (((q1.r * t1816) + t1828) + ((q1.v.z * t1817) - (q1.v.x * t1815)))
+  let t1838 := (((q1.r * t1817) + t1829) + ((q1.v.y * t1815) - (q1.v.z * t1816)))
+  let t1844 := (q1.r * t1814)
+  let t1845 := (t1844 - (((q1.v.x * t1817) + (q1.v.y * t1816)) + (q1.v.z * t1815)))
+  let t1853 := (sqrt ((t1845 * t1845) + (((t1838 * t1838) + (t1837 * t1837)) + (t1836 * t1836))))
+  let t1854 := (t1845 / t1853)
+  let t1855 := (t1838 / t1853)
+  let t1856 := (t1837 / t1853)
+  let t1857 := (t1836 / t1853)
+  let t1858 := (t1810 / t1809)
+  let t1859 := (t1806 * t1858)
+  let t1860 := (t1807 * t1858)
+  let t1861 := (t1808 * t1858)
+  let t1877 := (((q1.r * t1859) + t1827) + ((q1.v.x * t1860) - (q1.v.y * t1861)))
+  let t1878 := (((q1.r * t1860) + t1828) + ((q1.v.z * t1861) - (q1.v.x * t1859)))
+  let t1879 := (((q1.r * t1861) + t1829) + ((q1.v.y * t1859) - (q1.v.z * t1860)))
+  let t1885 := (t1844 - (((q1.v.x * t1861) + (q1.v.y * t1860)) + (q1.v.z * t1859)))
+  let t1893 := (sqrt ((t1885 * t1885) + (((t1879 * t1879) + (t1878 * t1878)) + (t1877 * t1877))))
+  let t1894 := (t1885 / t1893)
+  let t1895 := (t1879 / t1893)
+  let t1896 := (t1878 / t1893)
+  let t1897 := (t1877 / t1893)
+  let t1901 := ((t1314 + t1705) * (-((1 : α) / (4 : α))))
+  let t1902 := ((t1315 + t1706) * (-((1 : α) / (4 : α))))
+  let t1903 := ((t1316 + t1707) * (-((1 : α) / (4 : α))))
+  let t1904 := (V3.length tmin tmax sqrt ⟨t1903, t1902, t1901⟩)
+  let t1905 := (sin t1904)
+  let t1906 := (sabs t1904)
+  let t1907 := (tmax * t1906)
+  let t1908 := (sabs t1905)
+  let t1909 := (cos t1904)
+  let t1910 := (t1901 * (1 : α))
+  let t1911 := (t1902 * (1 : α))
+  let t1912 := (t1903 * (1 : α))
+  let t1922 := (q1.v.z * t1909)
+  let t1923 := (q1.v.y * t1909)
+  let t1924 := (q1.v.x * t1909)
+  let t1931 := (((q1.r * t1910) + t1922) + ((q1.v.x * t1911) - (q1.v.y * t1912)))
+  let t1932 := (((q1.r * t1911) + t1923) + ((q1.v.z * t1912) - (q1.v.x * t1910)))
+  let t1933 := (((q1.r * t1912) + t1924) + ((q1.v.y * t1910) - (q1.v.z * t1911)))
+  let t1939 := (q1.r * t1909)
+  let t1940 := (t1939 - (((q1.v.x * t1912) + (q1.v.y * t1911)) + (q1.v.z * t1910)))
+  let t1948 := (sqrt ((t1940 * t1940) + (((t1933 * t1933) + (t1932 * t1932)) + (t1931 * t1931))))
+  let t1949 := (t1940 / t1948)
+  let t1950 := (t1933 / t1948)
+  let t1951 := (t1932 / t1948)
+  let t1952 := (t1931 / t1948)
+  let t1953 := (t1905 / t1904)
+  let t1954 := (t1901 * t1953)
+  let t1955 := (t1902 * t1953)
+  let t1956 := (t1903 * t1953)
+  let t1972 := (((q1.r * t1954) + t1922) + ((q1.v.x * t1955) - (q1.v.y * t1956)))
+  let t1973 := (((q1.r * t1955) + t1923) + ((q1.v.z * t1956) - (q1.v.x * t1954)))
+  let t1974 := (((q1.r * t1956) + t1924) + ((q1.v.y * t1954) - (q1.v.z * t1955)))
+  let t1980 := (t1939 - (((q1.v.x * t1956) + (q1.v.y * t1955)) + (q1.v.z * t1954)))
+  let t1988 := (sqrt ((t1980 * t1980) + (((t1974 * t1974) + (t1973 * t1973)) + (t1972 * t1972))))
+  let t1989 := (t1980 / t1988)
+  let t1990 := (t1974 / t1988)
+  let t1991 := (t1973 / t1988)
+  let t1992 := (t1972 / t1988)
+  if t1110 = (0 : α) then
+    if t1112 = (0 : α) then
+      if t1124 < (1 : α) then
+        if t1125 ≤ t1126 then
+          if t1166 = (0 : α) then
             ⟨(1 : α), ⟨(0 : α), (0 : α), (0 : α)⟩⟩
           else
-            ⟨(t2055 / t2063), ⟨(t2048 / t2063), (t2047 / t2063), (t2046 / t2063)⟩⟩
+            ⟨(t1158 / t1166), ⟨(t1151 / t1166), (t1150 / t1166), (t1149 / t1166)⟩⟩
         else
-          if t2103 = (0 : α) then
+          if t1206 = (0 : α) then
             ⟨(1 : α), ⟨(0 : α), (0 : α), (0 : α)⟩⟩
           else
-            ⟨t2104, ⟨t2105, t2106, t2107⟩⟩
+            ⟨t1207, ⟨t1208, t1209, t1210⟩⟩
       else
-        if t2103 = (0 : α) then
+        if t1206 = (0 : α) then
           ⟨(1 : α), ⟨(0 : α), (0 : α), (0 : α)⟩⟩
         else
-          ⟨t2104, ⟨t2105, t2106, t2107⟩⟩
+          ⟨t1207, ⟨t1208, t1209, t1210⟩⟩
     else
-      if t2109 < (1 : α) then
-        if t2110 ≤ t2111 then
-          if t2123 < (1 : α) then
-            if t2124 ≤ t2125 then
-              if t2165 = (0 : α) then
+      if t1212 < (1 : α) then
+        if t1213 ≤ t1214 then
+          if t1226 < (1 : α) then
+            if t1227 ≤ t1228 then
+              if t1268 = (0 : α) then
                 ⟨(1 : α), ⟨(0 : α), (0 : α), (0 : α)⟩⟩
               else
-                ⟨(t2157 / t2165), ⟨(t2150 / t2165), (t2149 / t2165), (t2148 / t2165)⟩⟩
+                ⟨(t1260 / t1268), ⟨(t1253 / t1268), (t1252 / t1268), (t1251 / t1268)⟩⟩
             else
-              if t2205 = (0 : α) then
+              if t1308 = (0 : α) then
                 ⟨(1 : α), ⟨(0 : α), (0 : α), (0 : α)⟩⟩
               else
-                ⟨t2206, ⟨t2207, t2208, t2209⟩⟩
+                ⟨t1309, ⟨t1310, t1311, t1312⟩⟩
           else
-            if t2205 = (0 : α) then
+            if t1308 = (0 : α) then
               ⟨(1 : α), ⟨(0 : α), (0 : α), (0 : α)⟩⟩
             else
-              ⟨t2206, ⟨t2207, t2208, t2209⟩⟩
+              ⟨t1309, ⟨t1310, t1311, t1312⟩⟩
         else
-          if t2222 < (1 : α) then
-            if t2223 ≤ t2224 then
-              if t2264 = (0 : α) then
+          if t1325 < (1 : α) then
+            if t1326 ≤ t1327 then
+              if t1367 = (0 : α) then
                 ⟨(1 : α), ⟨(0 : α), (0 : α), (0 : α)⟩⟩
               else
-                ⟨t2265, ⟨t2266, t2267, t2268⟩⟩
+                ⟨t1368, ⟨t1369, t1370, t1371⟩⟩
             else
-              if t2304 = (0 : α) then
+              if t1407 = (0 : α) then
                 ⟨(1 : α), ⟨(0 : α), (0 : α), (0 : α)⟩⟩
               else
-                ⟨t2305, ⟨t2306, t2307, t2308⟩⟩
+                ⟨t1408, ⟨t1409, t1410, t1411⟩⟩
           else
-            if t2304 = (0 : α) then
+            if t1407 = (0 : α) then
               ⟨(1 : α), ⟨(0 : α), (0 : α), (0 : α)⟩⟩
             else
-              ⟨t2305, ⟨t2306, t2307, t2308⟩⟩
+              ⟨t1408, ⟨t1409, t1410, t1411⟩⟩
       else
-        if t2222 < (1 : α) then
-          if t2223 ≤ t2224 then
-            if t2264 = (0 : α) then
+        if t1325 < (1 : α) then
+          if t1326 ≤ t1327 then
+            if t1367 = (0 : α) then
               ⟨(1 : α), ⟨(0 : α), (0 : α), (0 : α)⟩⟩
             else
-              ⟨t2265, ⟨t2266, t2267, t2268⟩⟩
+              ⟨t1368, ⟨t1369, t1370, t1371⟩⟩
           else
-            if t2304 = (0 : α) then
+            if t1407 = (0 : α) then
               ⟨(1 : α), ⟨(0 : α), (0 : α), (0 : α)⟩⟩
             else
-              ⟨t2305, ⟨t2306, t2307, t2308⟩⟩
+              ⟨t1408, ⟨t1409, t1410, t1411⟩⟩
         else
-          if t2304 = (0 : α) then
+          if t1407 = (0 : α) then
             ⟨(1 : α), ⟨(0 : α), (0 : α), (0 : α)⟩⟩
           else
-            ⟨t2305, ⟨t2306, t2307, t2308⟩⟩
+            ⟨t1408, ⟨t1409, t1410, t1411⟩⟩
   else
-    if t2310 < (1 : α) then
-      if t2311 ≤ t2312 then
-        if t2010 = (0 : α) then
-          if t2324 < (1 : α) then
-            if t2325 ≤ t2326 then
-              if t2366 = (0 : α) then
+    if t1413 < (1 : α) then
+      if t1414 ≤ t1415 then
+        if t1112 = (0 : α) then
+          if t1427 < (1 : α) then
+            if t1428 ≤ t1429 then
+              if t1469 = (0 : α) then
                 ⟨(1 : α), ⟨(0 : α), (0 : α), (0 : α)⟩⟩
               else
-                ⟨(t2358 / t2366), ⟨(t2351 / t2366), (t2350 / t2366), (t2349 / t2366)⟩⟩
+                ⟨(t1461 / t1469), ⟨(t1454 / t1469), (t1453 / t1469), (t1452 / t1469)⟩⟩
             else
-              if t2406 = (0 : α) then
+              if t1509 = (0 : α) then
                 ⟨(1 : α), ⟨(0 : α), (0 : α), (0 : α)⟩⟩
               else
-                ⟨t2407, ⟨t2408, t2409, t2410⟩⟩
+                ⟨t1510, ⟨t1511, t1512, t1513⟩⟩
           else
-            if t2406 = (0 : α) then
+            if t1509 = (0 : α) then
               ⟨(1 : α), ⟨(0 : α), (0 : α), (0 : α)⟩⟩
             else
-              ⟨t2407, ⟨t2408, t2409, t2410⟩⟩
+              ⟨t1510, ⟨t1511, t1512, t1513⟩⟩
         else
-          if t2109 < (1 : α) then
-            if t2110 ≤ t2111 then
-              if t2419 < (1 : α) then
-                if t2420 ≤ t2421 then
-                  if t2461 = (0 : α) then
+          if t1212 < (1 : α) then
+            if t1213 ≤ t1214 then
+              if t1522 < (1 : α) then
+                if t1523 ≤ t1524 then
+                  if t1564 = (0 : α) then
                     ⟨(1 : α), ⟨(0 : α), (0 : α), (0 : α)⟩⟩
                   else
-                    ⟨(t2453 / t2461), ⟨(t2446 / t2461), (t2445 / t2461), (t2444 / t2461)⟩⟩
+                    ⟨(t1556 / t1564), ⟨(t1549 / t1564), (t1548 / t1564), (t1547 / t1564)⟩⟩
                 else
-                  if t2501 = (0 : α) then
+                  if t1604 = (0 : α) then
                     ⟨(1 : α), ⟨(0 : α), (0 : α), (0 : α)⟩⟩
                   else
-                    ⟨t2502, ⟨t2503, t2504, t2505⟩⟩
+                    ⟨t1605, ⟨t1606, t1607, t1608⟩⟩
               else
-                if t2501 = (0 : α) then
+                if t1604 = (0 : α) then
                   ⟨(1 : α), ⟨(0 : α), (0 : α), (0 : α)⟩⟩
                 else
-                  ⟨t2502, ⟨t2503, t2504, t2505⟩⟩
+                  ⟨t1605, ⟨t1606, t1607, t1608⟩⟩
             else
-              if t2514 < (1 : α) then
-                if t2515 ≤ t2516 then
-                  if t2556 = (0 : α) then
+              if t1617 < (1 : α) then
+                if t1618 ≤ t1619 then
+                  if t1659 = (0 : α) then
                     ⟨(1 : α), ⟨(0 : α), (0 : α), (0 : α)⟩⟩
                   else
-                    ⟨t2557, ⟨t2558, t2559, t2560⟩⟩
+                    ⟨t1660, ⟨t1661, t1662, t1663⟩⟩
                 else
-                  if t2596 = (0 : α) then
+                  if t1699 = (0 : α) then
                     ⟨(1 : α), ⟨(0 : α), (0 : α), (0 : α)⟩⟩
                   else
-                    ⟨t2597, ⟨t2598, t2599, t2600⟩⟩
+                    ⟨t1700, ⟨t1701, t1702, t1703⟩⟩
               else
-                if t2596 = (0 : α) then
+                if t1699 = (0 : α) then
                   ⟨(1 : α), ⟨(0 : α), (0 : α), (0 : α)⟩⟩
                 else
-                  ⟨t2597, ⟨t2598, t2599, t2600⟩⟩
+                  ⟨t1700, ⟨t1701, t1702, t1703⟩⟩
           else
-            if t2514 < (1 : α) then
-              if t2515 ≤ t2516 then
-                if t2556 = (0 : α) then
+            if t1617 < (1 : α) then
+              if t1618 ≤ t1619 then
+                if t1659 = (0 : α) then
                   ⟨(1 : α), ⟨(0 : α), (0 : α), (0 : α)⟩⟩
                 else
-                  ⟨t2557, ⟨t2558, t2559, t2560⟩⟩
+                  ⟨t1660, ⟨t1661, t1662, t1663⟩⟩
               else
-                if t2596 = (0 : α) then
+                if t1699 = (0 : α) then
                   ⟨(1 : α), ⟨(0 : α), (0 : α), (0 : α)⟩⟩
                 else
-                  ⟨t2597, ⟨t2598, t2599, t2600⟩⟩
+                  ⟨t1700, ⟨t1701, t1702, t1703⟩⟩
             else
-              if t2596 = (0 : α) then
+              if t1699 = (0 : α) then
                 ⟨(1 : α), ⟨(0 : α), (0 : α), (0 : α)⟩⟩
               else
-                ⟨t2597, ⟨t2598, t2599, t2600⟩⟩
+                ⟨t1700, ⟨t1701, t1702, t1703⟩⟩
       else
-        if t2010 = (0 : α) then
-          if t2613 < (1 : α) then
-            if t2614 ≤ t2615 then
-              if t2655 = (0 : α) then
+        if t1112 = (0 : α) then
+          if t1716 < (1 : α) then
+            if t1717 ≤ t1718 then
+              if t1758 = (0 : α) then
                 ⟨(1 : α), ⟨(0 : α), (0 : α), (0 : α)⟩⟩
               else
-                ⟨t2656, ⟨t2657, t2658, t2659⟩⟩
+                ⟨t1759, ⟨t1760, t1761, t1762⟩⟩
             else
-              if t2695 = (0 : α) then
+              if t1798 = (0 : α) then
                 ⟨(1 : α), ⟨(0 : α), (0 : α), (0 : α)⟩⟩
               else
-                ⟨t2696, ⟨t2697, t2698, t2699⟩⟩
+                ⟨t1799, ⟨t1800, t1801, t1802⟩⟩
           else
-            if t2695 = (0 : α) then
+            if t1798 = (0 : α) then
               ⟨(1 : α), ⟨(0 : α), (0 : α), (0 : α)⟩⟩
             else
-              ⟨t2696, ⟨t2697, t2698, t2699⟩⟩
+              ⟨t1799, ⟨t1800, t1801, t1802⟩⟩
         else
-          if t2109 < (1 : α) then
-            if t2110 ≤ t2111 then
-              if t2708 < (1 : α) then
-                if t2709 ≤ t2710 then
-                  if t2750 = (0 : α) then
+          if t1212 < (1 : α) then
+            if t1213 ≤ t1214 then
+              if t1811 < (1 : α) then
+                if t1812 ≤ t1813 then
+                  if t1853 = (0 : α) then
                     ⟨(1 : α), ⟨(0 : α), (0 : α), (0 : α)⟩⟩
                   else
-                    ⟨t2751, ⟨t2752, t2753, t2754⟩⟩
+                    ⟨t1854, ⟨t1855, t1856, t1857⟩⟩
                 else
-                  if t2790 = (0 : α) then
+                  if t1893 = (0 : α) then
                     ⟨(1 : α), ⟨(0 : α), (0 : α), (0 : α)⟩⟩
                   else
-                    ⟨t2791, ⟨t2792, t2793, t2794⟩⟩
+                    ⟨t1894, ⟨t1895, t1896, t1897⟩⟩
               else
-                if t2790 = (0 : α) then
+                if t1893 = (0 : α) then
                   ⟨(1 : α), ⟨(0 : α), (0 : α), (0 : α)⟩⟩
                 else
-                  ⟨t2791, ⟨t2792, t2793, t2794⟩⟩
+                  ⟨t1894, ⟨t1895, t1896, t1897⟩⟩
             else
-              if t2803 < (1 : α) then
-                if t2804 ≤ t2805 then
-                  if t2845 = (0 : α) then
+              if t1906 < (1 : α) then
+                if t1907 ≤ t1908 then
+                  if t1948 = (0 : α) then
                     ⟨(1 : α), ⟨(0 : α), (0 : α), (0 : α)⟩⟩
                   else
-                    ⟨t2846, ⟨t2847, t2848, t2849⟩⟩
+                    ⟨t1949, ⟨t1950, t1951, t1952⟩⟩
                 else
-                  if t2885 = (0 : α) then
+                  if t1988 = (0 : α) then
                     ⟨(1 : α), ⟨(0 : α), (0 : α), (0 : α)⟩⟩
                   else
-                    ⟨t2886, ⟨t2887, t2888, t2889⟩⟩
+                    ⟨t1989, ⟨t1990, t1991, t1992⟩⟩
               else
-                if t2885 = (0 : α) then
+                if t1988 = (0 : α) then
                   ⟨(1 : α), ⟨(0 : α), (0 : α), (0 : α)⟩⟩
                 else
-                  ⟨t2886, ⟨t2887, t2888, t2889⟩⟩
+                  ⟨t1989, ⟨t1990, t1991, t1992⟩⟩
           else
-            if t2803 < (1 : α) then
-              if t2804 ≤ t2805 then
-                if t2845 = (0 : α) then
+            if t1906 < (1 : α) then
+              if t1907 ≤ t1908 then
+                if t1948 = (0 : α) then
                   ⟨(1 : α), ⟨(0 : α), (0 : α), (0 : α)⟩⟩
                 else
-                  ⟨t2846, ⟨t2847, t2848, t2849⟩⟩
+                  ⟨t1949, ⟨t1950, t1951, t1952⟩⟩
               else
-                if t2885 = (0 : α) then
+                if t1988 = (0 : α) then
                   ⟨(1 : α), ⟨(0 : α), (0 : α), (0 : α)⟩⟩
                 else
-                  ⟨t2886, ⟨t2887, t2888, t2889⟩⟩
+                  ⟨t1989, ⟨t1990, t1991, t1992⟩⟩
             else
-              if t2885 = (0 : α) then
+              if t1988 = (0 : α) then
                 ⟨(1 : α), ⟨(0 : α), (0 : α), (0 : α)⟩⟩
               else
-                ⟨t2886, ⟨t2887, t2888, t2889⟩⟩
+                ⟨t1989, ⟨t1990, t1991, t1992⟩⟩
     else
-      if t2010 = (0 : α) then
-        if t2613 < (1 : α) then
-          if t2614 ≤ t2615 then
-            if t2655 = (0 : α) then
+      if t1112 = (0 : α) then
+        if t1716 < (1 : α) then
+          if t1717 ≤ t1718 then
+            if t1758 = (0 : α) then
               ⟨(1 : α), ⟨(0 : α), (0 : α), (0 : α)⟩⟩
             else
-              ⟨t2656, ⟨t2657, t2658, t2659⟩⟩
+              ⟨t1759, ⟨t1760, t1761, t1762⟩⟩
           else
-            if t2695 = (0 : α) then
+            if t1798 = (0 : α) then
               ⟨(1 : α), ⟨(0 : α), (0 : α), (0 : α)⟩⟩
             else
-              ⟨t2696, ⟨t2697, t2698, t2699⟩⟩
+              ⟨t1799, ⟨t1800, t1801, t1802⟩⟩
         else
-          if t2695 = (0 : α) then
+          if t1798 = (0 : α) then
             ⟨(1 : α), ⟨(0 : α), (0 : α), (0 : α)⟩⟩
           else
-            ⟨t2696, ⟨t2697, t2698, t2699⟩⟩
+            ⟨t1799, ⟨t1800, t1801, t1802⟩⟩
       else
-        if t2109 < (1 : α) then
-          if t2110 ≤ t2111 then
-            if t2708 < (1 : α) then
-              if t2709 ≤ t2710 then
-                if t2750 = (0 : α) then
+        if t1212 < (1 : α) then
+          if t1213 ≤ t1214 then
+            if t1811 < (1 : α) then
+              if t1812 ≤ t1813 then
+                if t1853 = (0 : α) then
                   ⟨(1 : α), ⟨(0 : α), (0 : α), (0 : α)⟩⟩
                 else
-                  ⟨t2751, ⟨t2752, t2753, t2754⟩⟩
+                  ⟨t1854, ⟨t1855, t1856, t1857⟩⟩
               else
-                if t2790 = (0 : α) then
+                if t1893 = (0 : α) then
                   ⟨(1 : α), ⟨(0 : α), (0 : α), (0 : α)⟩⟩
                 else
-                  ⟨t2791, ⟨t2792, t2793, t2794⟩⟩
+                  ⟨t1894, ⟨t1895, t1896, t1897⟩⟩
             else
-              if t2790 = (0 : α) then
+              if t1893 = (0 : α) then
                 ⟨(1 : α), ⟨(0 : α), (0 : α), (0 : α)⟩⟩
               else
-                ⟨t2791, ⟨t2792, t2793, t2794⟩⟩
+                ⟨t1894, ⟨t1895, t1896, t1897⟩⟩
           else
-            if t2803 < (1 : α) then
-              if t2804 ≤ t2805 then
-                if t2845 = (0 : α) then
+            if t1906 < (1 : α) then
+              if t1907 ≤ t1908 then
+                if t1948 = (0 : α) then
                   ⟨(1 : α), ⟨(0 : α), (0 : α), (0 : α)⟩⟩
                 else
-                  ⟨t2846, ⟨t2847, t2848, t2849⟩⟩
+                  ⟨t1949, ⟨t1950, t1951, t1952⟩⟩
               else
-                if t2885 = (0 : α) then
+                if t1988 = (0 : α) then
                   ⟨(1 : α), ⟨(0 : α), (0 : α), (0 : α)⟩⟩
                 else
-                  ⟨t2886, ⟨t2887, t2888, t2889⟩⟩
+                  ⟨t1989, ⟨t1990, t1991, t1992⟩⟩
             else
-              if t2885 = (0 : α) then
+              if t1988 = (0 : α) then
                 ⟨(1 : α), ⟨(0 : α), (0 : α), (0 : α)⟩⟩
               else
-                ⟨t2886, ⟨t2887, t2888, t2889⟩⟩
+                ⟨t1989, ⟨t1990, t1991, t1992⟩⟩
         else
-          if t2803 < (1 : α) then
-            if t2804 ≤ t2805 then
-              if t2845 = (0 : α) then
+          if t1906 < (1 : α) then
+            if t1907 ≤ t1908 then
+              if t1948 = (0 : α) then
                 ⟨(1 : α), ⟨(0 : α), (0 : α), (0 : α)⟩⟩
               else
-                ⟨t2846, ⟨t2847, t2848, t2849⟩⟩
+                ⟨t1949, ⟨t1950, t1951, t1952⟩⟩
             else
-              if t2885 = (0 : α) then
+              if t1988 = (0 : α) then
                 ⟨(1 : α), ⟨(0 : α), (0 : α), (0 : α)⟩⟩
               else
-                ⟨t2886, ⟨t2887, t2888, t2889⟩⟩
+                ⟨t1989, ⟨t1990, t1991, t1992⟩⟩
           else
-            if t2885 = (0 : α) then
+            if t1988 = (0 : α) then
               ⟨(1 : α), ⟨(0 : α), (0 : α), (0 : α)⟩⟩
             else
-              ⟨t2886, ⟨t2887, t2888, t2889⟩⟩
+              ⟨t1989, ⟨t1990, t1991, t1992⟩⟩
 
 end ImathVerif.Gen
